@@ -212,8 +212,8 @@ Section C07.
     - destruct Hwf as [Hn Hr]. split; [apply pick_rows_length|]. apply pick_rows_rect; [exact Hr|]. rewrite Hn; exact Hp.
     - destruct Hwf as [Hn Hr]. split; [apply pick_rows_length|]. apply pick_rows_rect_w; [exact Hr|]. rewrite Hn; exact Hp.
     - destruct Hwf as [Hne Hall]. split; [destruct d; [congruence|discriminate]|].
-      apply Forall_map. eapply Forall_impl; [|exact Hall]. cbn [fst snd]. intros kcm [Hn Hr].
-      split; [apply pick_rows_length|]. apply pick_rows_rect; [exact Hr|]. rewrite Hn; exact Hp.
+      apply Forall_map. eapply Forall_impl; [|exact Hall]. intros kcm [Hn Hr]. cbn [fst snd].
+      split; [apply pick_rows_length|]. apply pick_rows_rect; [exact Hr|]. unfold cellmat in *. rewrite Hn; exact Hp.
   Qed.
 
   Lemma frame_wf_sel : forall n vs yy ov pos,
@@ -222,7 +222,7 @@ Section C07.
              (option_map (fun _ => length pos) ov).
   Proof.
     intros n vs yy ov pos [Hv [Hy Ho]] Hp. split; [|split].
-    - apply Forall_map. eapply Forall_impl; [|exact Hv]. cbn [fst snd]. intros sv H. apply view_wf_vsel; assumption.
+    - apply Forall_map. eapply Forall_impl; [|exact Hv]. cbn [fst snd]. intros sv H. apply (view_wf_vsel n); assumption.
     - destruct yy; cbn [option_map]; [unfold ysel; apply map_length|exact I].
     - destruct ov; cbn [option_map]; [reflexivity|].
       destruct Ho as [Hne|Hz]; [left; destruct vs; [congruence|discriminate]|].
@@ -261,22 +261,6 @@ Section C07.
   Qed.
 
   (* chains of selections *)
-  Lemma vsel_vsel : forall pos pos' v,
-    vsel pos' (vsel pos v) = vsel (map (fun i => nth i pos 0) pos') v \/ True.
-  Proof. intros; right; exact I. Qed.
-
-  Fixpoint spec_chain (n : nat) (vs : list (stype * fview)) (nm : list (stype * list string))
-           (yy : option (list payload)) (ov : option nat) (p : list index) : option tframe :=
-    match p with
-    | [] => Some (frame_of vs nm yy ov)
-    | ix :: rest =>
-        match py_positions n (as_list_index ix) with
-        | Some pos => spec_chain (length pos) (map (fun sv => (fst sv, vsel pos (snd sv))) vs) nm
-                                 (option_map (ysel pos) yy) (option_map (fun _ => length pos) ov) rest
-        | None => None
-        end
-    end.
-
   Lemma getitem_chain_proof : forall p n vs nm yy ov,
     frame_wf n vs yy ov ->
     vs <> [] \/ yy <> None \/ ov <> None ->
@@ -307,3 +291,2197 @@ Proof.
   replace (Z.to_nat (Z.max 0 (Z.min (Z.of_nat b) (Z.of_nat n)))) with n by lia.
   change (Z.to_nat 1) with 1. rewrite range_up_1. reflexivity.
 Qed.
+
+Lemma overshoot_rows : forall {B} (m : cellmat B) n a,
+  length m = n -> a <= n -> pick_rows (seq a (n - a)) m = skipn a m.
+Proof.
+  intros B m n a Hn Ha. unfold pick_rows. rewrite map_nth_seq_tslice by lia. unfold tslice.
+  replace (a + (n - a) - a) with (n - a) by lia. apply firstn_all2. rewrite skipn_length. lia.
+Qed.
+
+(* ================================================================== *)
+(* C08 *)
+
+Lemma stype_eqb_spec : forall a b, stype_eqb a b = true <-> a = b.
+Proof. intros a b; destruct a, b; simpl; split; intros H; try reflexivity; try discriminate. Qed.
+
+Lemma stype_eqb_refl : forall a, stype_eqb a a = true.
+Proof. intros a. apply stype_eqb_spec. reflexivity. Qed.
+
+Lemma str_eqb_spec : forall a b, String.eqb a b = true <-> a = b.
+Proof. intros. apply String.eqb_eq. Qed.
+
+(* ------------------------------------------------------------------ *)
+(* association lists *)
+Section AssocFacts.
+  Context {K V : Type}.
+  Variable keqb : K -> K -> bool.
+  Hypothesis keqb_spec : forall a b, keqb a b = true <-> a = b.
+
+  Lemma keqb_refl : forall a, keqb a a = true.
+  Proof. intros a. apply keqb_spec. reflexivity. Qed.
+
+  Lemma keqb_neq : forall a b, a <> b -> keqb a b = false.
+  Proof. intros a b H. destruct (keqb a b) eqn:E; [|reflexivity]. apply keqb_spec in E. contradiction. Qed.
+
+  Lemma alookup_In : forall k (v : V) d, alookup keqb k d = Some v -> In (k, v) d.
+  Proof.
+    induction d as [|[k' v'] r IH]; simpl; [discriminate|].
+    destruct (keqb k k') eqn:E.
+    - intros H; injection H as <-. apply keqb_spec in E; subst. left; reflexivity.
+    - intros H. right. apply IH. exact H.
+  Qed.
+
+  Lemma alookup_None : forall k (d : list (K * V)), alookup keqb k d = None <-> ~ In k (map fst d).
+  Proof.
+    induction d as [|[k' v'] r IH]; simpl; [tauto|].
+    destruct (keqb k k') eqn:E.
+    - apply keqb_spec in E; subst. split; [discriminate|]. intros H; exfalso; apply H; left; reflexivity.
+    - rewrite IH. split; [|tauto]. intros H [H1|H1]; [|tauto]. subst. rewrite keqb_refl in E. discriminate.
+  Qed.
+
+  Lemma In_alookup : forall k (v : V) d, NoDup (map fst d) -> In (k, v) d -> alookup keqb k d = Some v.
+  Proof.
+    induction d as [|[k' v'] r IH]; simpl; [tauto|]. intros Hnd [H|H].
+    - injection H as -> ->. rewrite keqb_refl. reflexivity.
+    - inversion Hnd as [|? ? Hni Hnd']; subst. destruct (keqb k k') eqn:E.
+      + apply keqb_spec in E; subst. exfalso. apply Hni. apply in_map_iff. exists (k', v). split; [reflexivity|exact H].
+      + apply IH; assumption.
+  Qed.
+
+  Lemma alookup_app : forall k (a b : list (K * V)),
+    alookup keqb k (a ++ b) = match alookup keqb k a with Some v => Some v | None => alookup keqb k b end.
+  Proof.
+    induction a as [|[k' v'] r IH]; intros b; simpl; [reflexivity|].
+    destruct (keqb k k'); [reflexivity|apply IH].
+  Qed.
+
+  Lemma alookup_aset_same : forall k (v : V) d, alookup keqb k (aset keqb k v d) = Some v.
+  Proof.
+    induction d as [|[k' v'] r IH]; simpl; [rewrite keqb_refl; reflexivity|].
+    destruct (keqb k k') eqn:E; simpl; rewrite E; [reflexivity|exact IH].
+  Qed.
+
+  Lemma alookup_aset_other : forall k k2 (v : V) d, k2 <> k -> alookup keqb k2 (aset keqb k v d) = alookup keqb k2 d.
+  Proof.
+    induction d as [|[k' v'] r IH]; intros Hne; simpl.
+    - rewrite (keqb_neq _ _ Hne). reflexivity.
+    - destruct (keqb k k') eqn:E; simpl.
+      + apply keqb_spec in E; subst. rewrite (keqb_neq _ _ Hne). reflexivity.
+      + destruct (keqb k2 k'); [reflexivity|apply IH; exact Hne].
+  Qed.
+
+  Lemma aset_keys_present : forall k (v v0 : V) d, alookup keqb k d = Some v0 -> map fst (aset keqb k v d) = map fst d.
+  Proof.
+    induction d as [|[k' v'] r IH]; simpl; [discriminate|].
+    destruct (keqb k k') eqn:E; simpl; [reflexivity|]. intros H. rewrite IH; [reflexivity|exact H].
+  Qed.
+
+  Lemma amem_In : forall k ks, amem keqb k ks = true <-> In k ks.
+  Proof.
+    intros k ks. unfold amem. rewrite existsb_exists. split.
+    - intros [x [Hx E]]. apply keqb_spec in E; subst; exact Hx.
+    - intros H. exists k. split; [exact H|apply keqb_refl].
+  Qed.
+
+  Lemma keys_eqb_true : forall a b : list K,
+    length a = length b -> (forall k, In k a -> In k b) -> (forall k, In k b -> In k a) -> keys_eqb keqb a b = true.
+  Proof.
+    intros a b Hl H1 H2. unfold keys_eqb. rewrite Hl, Nat.eqb_refl. simpl.
+    apply andb_true_intro; split; apply forallb_forall; intros k Hk; apply amem_In; auto.
+  Qed.
+
+  Lemma dict_eqb_refl : forall (veqb : V -> V -> bool) (d : list (K * V)),
+    (forall v, veqb v v = true) -> NoDup (map fst d) -> dict_eqb keqb veqb d d = true.
+  Proof.
+    intros veqb d Hr Hnd. unfold dict_eqb. rewrite Nat.eqb_refl. simpl.
+    apply forallb_forall. intros [k v] Hin. simpl. rewrite (In_alookup k v d Hnd Hin). apply Hr.
+  Qed.
+End AssocFacts.
+
+Lemma NoDup_app_intro_single : forall {X} (l : list X) x, NoDup l -> ~ In x l -> NoDup (l ++ [x]).
+Proof.
+  induction l as [|a r IH]; intros x Hnd Hni; simpl.
+  - constructor; [intros []|constructor].
+  - inversion Hnd as [|? ? Ha Hr]; subst. constructor.
+    + rewrite in_app_iff. intros [H|[H|[]]]; [contradiction|]. subst. apply Hni. left; reflexivity.
+    + apply IH; [exact Hr|]. intros H. apply Hni. right; exact H.
+Qed.
+
+(* defaultdict(list) grouping: processing a flat list of (key, values) pairs *)
+Section GroupFacts.
+  Context {K W : Type}.
+  Variable keqb : K -> K -> bool.
+  Hypothesis keqb_spec : forall a b, keqb a b = true <-> a = b.
+
+  Definition gstep (acc : list (K * list W)) (kv : K * list W) := dict_extend keqb acc (fst kv) (snd kv).
+  Definition vals_of (k : K) (L : list (K * list W)) : list W :=
+    concat (map snd (filter (fun kv => keqb k (fst kv)) L)).
+  Definition has_key (k : K) (L : list (K * list W)) : bool := existsb (fun kv => keqb k (fst kv)) L.
+
+  Lemma fold_flat : forall {T U} (f : list (K * list W) -> U -> list (K * list W)) (g : T -> list U) (ts : list T) acc,
+    fold_left (fun a t => fold_left f (g t) a) ts acc = fold_left f (flat_map g ts) acc.
+  Proof.
+    intros T U f g ts. induction ts as [|t r IH]; intros acc; simpl; [reflexivity|].
+    rewrite fold_left_app. apply IH.
+  Qed.
+
+  Lemma gstep_lookup : forall acc kv k,
+    alookup keqb k (gstep acc kv) =
+    if keqb k (fst kv)
+    then Some (match alookup keqb k acc with Some l => l ++ snd kv | None => snd kv end)
+    else alookup keqb k acc.
+  Proof.
+    intros acc [k0 ws] k. unfold gstep, dict_extend. cbn [fst snd].
+    destruct (keqb k k0) eqn:E.
+    - apply keqb_spec in E; subst k0. destruct (alookup keqb k acc) as [l|] eqn:El.
+      + apply (alookup_aset_same keqb keqb_spec).
+      + rewrite alookup_app, El. simpl. rewrite (keqb_refl keqb keqb_spec). reflexivity.
+    - assert (Hne : k <> k0) by (intros ->; rewrite (keqb_refl keqb keqb_spec) in E; discriminate).
+      destruct (alookup keqb k0 acc) as [l|] eqn:El.
+      + apply (alookup_aset_other keqb keqb_spec). exact Hne.
+      + rewrite alookup_app. destruct (alookup keqb k acc); [reflexivity|]. simpl. rewrite E. reflexivity.
+  Qed.
+
+  Lemma group_lookup : forall L acc k,
+    alookup keqb k (fold_left gstep L acc) =
+    match alookup keqb k acc with
+    | Some l => Some (l ++ vals_of k L)
+    | None => if has_key k L then Some (vals_of k L) else None
+    end.
+  Proof.
+    induction L as [|kv r IH]; intros acc k; simpl.
+    - unfold vals_of. simpl. destruct (alookup keqb k acc); [rewrite app_nil_r|]; reflexivity.
+    - rewrite IH, gstep_lookup. unfold vals_of. simpl. destruct (keqb k (fst kv)) eqn:E; simpl.
+      + destruct (alookup keqb k acc); [rewrite app_assoc|]; reflexivity.
+      + reflexivity.
+  Qed.
+
+  Lemma gstep_nodup : forall acc kv, NoDup (map fst acc) -> NoDup (map fst (gstep acc kv)).
+  Proof.
+    intros acc [k0 ws] H. unfold gstep, dict_extend. cbn [fst snd].
+    destruct (alookup keqb k0 acc) as [l|] eqn:El.
+    - rewrite (aset_keys_present keqb k0 _ l acc El). exact H.
+    - rewrite map_app. simpl. apply NoDup_app_intro_single; [exact H|].
+      apply (alookup_None keqb keqb_spec). exact El.
+  Qed.
+End GroupFacts.
+
+Lemma fold_left_map : forall {X Y Z} (f : Z -> Y -> Z) (g : X -> Y) (l : list X) (a : Z),
+  fold_left f (map g l) a = fold_left (fun a x => f a (g x)) l a.
+Proof. intros X Y Z f g l. induction l as [|x r IH]; intros a; simpl; [reflexivity|apply IH]. Qed.
+
+(* the flat list of (stype, [feature]) pairs that _cat_helper walks through *)
+Definition flat_feats (tfs : list tframe) : list (stype * list feat) :=
+  flat_map (fun tf => map (fun sx => (fst sx, [snd sx])) (feats tf)) tfs.
+Definition flat_names (tfs : list tframe) : list (stype * list string) := flat_map names tfs.
+
+Lemma fold_left_ext : forall {X Z} (f g : Z -> X -> Z) (l : list X) (a : Z),
+  (forall a x, f a x = g a x) -> fold_left f l a = fold_left g l a.
+Proof. intros X Z f g l. induction l as [|x r IH]; intros a H; simpl; [reflexivity|]. rewrite H. apply IH. exact H. Qed.
+
+Lemma group_feats_flat : forall tfs, group_feats tfs = fold_left (gstep stype_eqb) (flat_feats tfs) [].
+Proof.
+  intros tfs. unfold group_feats, flat_feats.
+  rewrite <- (fold_flat (gstep stype_eqb) (fun tf => map (fun sx => (fst sx, [snd sx])) (feats tf))).
+  apply fold_left_ext. intros a tf. rewrite fold_left_map. reflexivity.
+Qed.
+
+Lemma group_names_flat : forall tfs, group_names tfs = fold_left (gstep stype_eqb) (flat_names tfs) [].
+Proof.
+  intros tfs. unfold group_names, flat_names.
+  rewrite <- (fold_flat (gstep stype_eqb) names).
+  apply fold_left_ext. intros a tf. apply fold_left_ext. intros a' [s c]. reflexivity.
+Qed.
+
+Lemma fold_gstep_nodup : forall {W} (L : list (stype * list W)) acc,
+  NoDup (map fst acc) -> NoDup (map fst (fold_left (gstep stype_eqb) L acc)).
+Proof.
+  intros W L. induction L as [|kv r IH]; intros acc H; simpl; [exact H|].
+  apply IH. apply (gstep_nodup stype_eqb stype_eqb_spec). exact H.
+Qed.
+
+Lemma group_In : forall {W} (L : list (stype * list W)) s l,
+  In (s, l) (fold_left (gstep stype_eqb) L []) -> l = vals_of stype_eqb s L /\ has_key stype_eqb s L = true.
+Proof.
+  intros W L s l Hin.
+  assert (Hnd : NoDup (map fst (fold_left (gstep stype_eqb) L []))) by (apply fold_gstep_nodup; constructor).
+  pose proof (In_alookup stype_eqb stype_eqb_spec s l _ Hnd Hin) as E.
+  rewrite (group_lookup stype_eqb stype_eqb_spec) in E. simpl in E.
+  destruct (has_key stype_eqb s L); [|discriminate]. injection E as <-. split; reflexivity.
+Qed.
+
+Lemma group_has : forall {W} (L : list (stype * list W)) s,
+  has_key stype_eqb s L = true -> In (s, vals_of stype_eqb s L) (fold_left (gstep stype_eqb) L []).
+Proof.
+  intros W L s H. apply (alookup_In stype_eqb stype_eqb_spec).
+  rewrite (group_lookup stype_eqb stype_eqb_spec). simpl. rewrite H. reflexivity.
+Qed.
+
+(* ------------------------------------------------------------------ *)
+(* validate() *)
+Lemma validate_ok : forall n fs nm yy ov,
+  length fs = length nm ->
+  (forall s, In s (map fst fs) -> In s (map fst nm)) ->
+  (forall s, In s (map fst nm) -> In s (map fst fs)) ->
+  tf_num_rows (MkTF fs nm yy ov) = Some n ->
+  (forall s x, In (s, x) fs ->
+     exists cn, alookup stype_eqb s nm = Some cn /\ cn <> [] /\
+                Forall (fun rc => snd rc = length cn /\ fst rc = n) (feat_shapes x)) ->
+  match yy with Some v => length v = n | None => True end ->
+  tf_validate (MkTF fs nm yy ov) = true.
+Proof.
+  intros n fs nm yy ov Hl H1 H2 Hn Hf Hy. unfold tf_validate. cbn [feats names y].
+  rewrite (keys_eqb_true stype_eqb stype_eqb_spec) by (rewrite ?map_length; assumption).
+  rewrite Hn. cbn [andb].
+  apply andb_true_intro; split; [apply andb_true_intro; split|].
+  - apply forallb_forall. intros [s x] Hin. cbn [fst snd].
+    destruct (Hf s x Hin) as [cn [E [_ Hs]]]. rewrite E.
+    apply forallb_forall. intros [r c] Hrc. rewrite Forall_forall in Hs. destruct (Hs _ Hrc) as [Hc Hr].
+    cbn [fst snd] in *. subst. rewrite !Nat.eqb_refl. reflexivity.
+  - apply forallb_forall. intros [s x] Hin. cbn [fst snd].
+    destruct (Hf s x Hin) as [cn [E [Hne _]]]. rewrite E. destruct cn; [congruence|reflexivity].
+  - destruct yy as [v|]; [|reflexivity]. apply Nat.eqb_eq. exact Hy.
+Qed.
+
+Lemma feat_shapes_view : forall n v,
+  view_wf n v -> vdict_ok v ->
+  Forall (fun rc => snd rc = vncols v /\ fst rc = n) (feat_shapes (feat_of_view v)).
+Proof.
+  intros n v Hwf Hd. destruct v as [c k m|c m|ws m|d]; cbn [feat_of_view feat_shapes view_wf vncols vdict_ok] in *.
+  - destruct Hwf as [Hn _]. constructor; [|constructor]. cbn [fst snd]. rewrite map_length. auto.
+  - destruct Hwf as [Hn _]. constructor; [|constructor]. unfold mnt_of_cells. cbn [fst snd nr nc]. auto.
+  - destruct Hwf as [Hn _]. constructor; [|constructor]. unfold met_of_cells. cbn [fst snd er ec]. auto.
+  - destruct Hwf as [Hne Hall]. destruct Hd as [_ Hc]. rewrite map_map. apply Forall_map.
+    rewrite Forall_forall in *. intros kcm Hin. cbn [fst snd]. unfold mnt_of_cells. cbn [nr nc].
+    destruct (Hall kcm Hin) as [Hn _]. split; [apply Hc; exact Hin|exact Hn].
+Qed.
+
+(* a frame given by views with consistent names passes validate() *)
+Lemma frame_of_validates : forall n vs nm yy ov,
+  frame_wf n vs yy ov -> names_ok vs nm -> tf_validate (frame_of vs nm yy ov) = true.
+Proof.
+  intros n vs nm yy ov Hwf [Hndv [Hndn [Hl [Hsub Hcols]]]].
+  pose proof (num_rows_frame_of n vs nm yy ov Hwf) as Hn. destruct Hwf as [Hv [Hy Ho]].
+  unfold frame_of in *. apply (validate_ok n).
+  - rewrite map_length. symmetry; exact Hl.
+  - intros s Hin. rewrite map_map in Hin. cbn [fst] in Hin. apply in_map_iff in Hin. destruct Hin as [[s' v] [<- Hin]].
+    destruct (Hcols s' v Hin) as [_ [cn [E _]]]. apply (alookup_In stype_eqb stype_eqb_spec) in E.
+    apply in_map_iff. exists (s', cn). split; [reflexivity|exact E].
+  - intros s Hin. rewrite map_map. cbn [fst]. apply Hsub. exact Hin.
+  - exact Hn.
+  - intros s x Hin. apply in_map_iff in Hin. destruct Hin as [[s' v] [E Hin]]. injection E as <- <-.
+    destruct (Hcols s' v Hin) as [Hd [cn [E [Hlen Hne]]]]. exists cn. split; [exact E|]. split; [exact Hne|].
+    rewrite Hlen. apply feat_shapes_view; [|exact Hd]. rewrite Forall_forall in Hv. apply (Hv (s', v) Hin).
+  - exact Hy.
+Qed.
+
+(* validate() rejects: a feature whose number of rows or of columns disagrees, a target of the wrong length *)
+Lemma validate_rejects_rows : forall f n s x r c,
+  tf_num_rows f = Some n -> In (s, x) (feats f) -> In (r, c) (feat_shapes x) -> r <> n -> tf_validate f = false.
+Proof.
+  intros f n s x r c Hn Hin Hrc Hne. unfold tf_validate. rewrite Hn.
+  destruct (keys_eqb stype_eqb (map fst (feats f)) (map fst (names f))); [|reflexivity]. cbn [andb].
+  match goal with |- ?A && ?B && ?C = false => assert (HA : A = false) end.
+  { apply not_true_is_false. intros HA. rewrite forallb_forall in HA. specialize (HA (s, x) Hin). cbn [fst snd] in HA.
+    destruct (alookup stype_eqb s (names f)); [|discriminate]. rewrite forallb_forall in HA.
+    specialize (HA (r, c) Hrc). cbn [fst snd] in HA. apply andb_prop in HA. destruct HA as [_ HA].
+    apply Nat.eqb_eq in HA. contradiction. }
+  rewrite HA. reflexivity.
+Qed.
+
+Lemma validate_rejects_cols : forall f s x r c cn,
+  In (s, x) (feats f) -> In (r, c) (feat_shapes x) -> alookup stype_eqb s (names f) = Some cn -> c <> length cn ->
+  tf_validate f = false.
+Proof.
+  intros f s x r c cn Hin Hrc Hcn Hne. unfold tf_validate.
+  destruct (keys_eqb stype_eqb (map fst (feats f)) (map fst (names f))); [|reflexivity]. cbn [andb].
+  destruct (tf_num_rows f) as [n|]; [|reflexivity].
+  match goal with |- ?A && ?B && ?C = false => assert (HA : A = false) end.
+  { apply not_true_is_false. intros HA. rewrite forallb_forall in HA. specialize (HA (s, x) Hin). cbn [fst snd] in HA.
+    rewrite Hcn in HA. rewrite forallb_forall in HA.
+    specialize (HA (r, c) Hrc). cbn [fst snd] in HA. apply andb_prop in HA. destruct HA as [HA _].
+    apply Nat.eqb_eq in HA. congruence. }
+  rewrite HA. reflexivity.
+Qed.
+
+Lemma validate_rejects_y : forall f n v,
+  tf_num_rows f = Some n -> y f = Some v -> length v <> n -> tf_validate f = false.
+Proof.
+  intros f n v Hn Hy Hne. unfold tf_validate. rewrite Hn, Hy.
+  destruct (keys_eqb stype_eqb (map fst (feats f)) (map fst (names f))); [|reflexivity]. cbn [andb].
+  rewrite andb_comm. assert (E : (length v =? n) = false) by (apply Nat.eqb_neq; exact Hne). rewrite E. reflexivity.
+Qed.
+
+Lemma validate_rejects_keys : forall f s,
+  In s (map fst (feats f)) -> ~ In s (map fst (names f)) -> tf_validate f = false.
+Proof.
+  intros f s Hin Hni. unfold tf_validate.
+  assert (E : keys_eqb stype_eqb (map fst (feats f)) (map fst (names f)) = false).
+  { apply not_true_is_false. intros H. unfold keys_eqb in H. apply andb_prop in H. destruct H as [H _].
+    apply andb_prop in H. destruct H as [_ H]. rewrite forallb_forall in H. specialize (H s Hin).
+    apply (amem_In stype_eqb stype_eqb_spec) in H. contradiction. }
+  rewrite E. reflexivity.
+Qed.
+
+(* ------------------------------------------------------------------ *)
+(* __eq__ *)
+Lemma list_eqb_Forall2 : forall {X} (e : X -> X -> bool) (a b : list X),
+  list_eqb e a b = true <-> Forall2 (fun x z => e x z = true) a b.
+Proof.
+  intros X e a. induction a as [|x r IH]; intros [|z b]; simpl; split; intros H; try discriminate; try constructor;
+    try (inversion H; fail).
+  - apply andb_prop in H. tauto.
+  - apply andb_prop in H. apply IH. tauto.
+  - inversion H; subst. apply andb_true_intro. split; [assumption|apply IH; assumption].
+Qed.
+
+Lemma list_eqb_refl : forall {X} (e : X -> X -> bool) (a : list X), (forall x, In x a -> e x x = true) -> list_eqb e a a = true.
+Proof.
+  intros X e a. induction a as [|x r IH]; intros H; simpl; [reflexivity|].
+  rewrite (H x (or_introl eq_refl)). apply IH. intros z Hz. apply H. right; exact Hz.
+Qed.
+
+Lemma list_eqb_eq : forall {X} (e : X -> X -> bool) (a b : list X),
+  (forall x z, e x z = true <-> x = z) -> (list_eqb e a b = true <-> a = b).
+Proof.
+  intros X e a b He. rewrite list_eqb_Forall2. split.
+  - intros H. induction H; [reflexivity|]. f_equal; [apply He; assumption|assumption].
+  - intros ->. induction b; constructor; [apply He; reflexivity|assumption].
+Qed.
+
+Lemma names_eqb_iff : forall na nb, names_eqb na nb = true <-> names_equiv na nb.
+Proof.
+  intros na nb. unfold names_eqb, dict_eqb, names_equiv. rewrite andb_true_iff, Nat.eqb_eq, forallb_forall.
+  split; intros [Hl H]; (split; [exact Hl|]).
+  - intros s cn Hin. specialize (H (s, cn) Hin). cbn [fst snd] in H.
+    destruct (alookup stype_eqb s nb) as [v|]; [|discriminate].
+    apply (list_eqb_eq String.eqb) in H; [subst; reflexivity|apply str_eqb_spec].
+  - intros [s cn] Hin. cbn [fst snd]. rewrite (H s cn Hin). apply (list_eqb_eq String.eqb); [apply str_eqb_spec|reflexivity].
+Qed.
+
+Section EqFacts.
+  Variable close : Z -> Z -> bool.
+
+  Definition eq_step (b : tframe) (acc : option bool) (sx : stype * feat) : option bool :=
+    r <- acc ;;
+    if negb r then Some false
+    else xb <- alookup stype_eqb (fst sx) (feats b) ;; Some (feat_eq close (snd sx) xb).
+
+  Lemma eq_fold_none : forall b l, fold_left (eq_step b) l None = None.
+  Proof. intros b l. induction l; simpl; auto. Qed.
+
+  Lemma eq_fold_false : forall b l, fold_left (eq_step b) l (Some false) = Some false.
+  Proof. intros b l. induction l; simpl; auto. Qed.
+
+  Lemma eq_fold_true : forall b l,
+    fold_left (eq_step b) l (Some true) = Some true <->
+    Forall (fun sx => exists xb, alookup stype_eqb (fst sx) (feats b) = Some xb /\ feat_eq close (snd sx) xb = true) l.
+  Proof.
+    intros b l. induction l as [|sx r IH]; cbn [fold_left].
+    - split; [constructor|reflexivity].
+    - remember (eq_step b (Some true) sx) as st eqn:Est. unfold eq_step in Est. cbn [obind negb] in Est.
+      destruct (alookup stype_eqb (fst sx) (feats b)) as [xb|] eqn:E; cbn [obind] in Est; subst st.
+      + destruct (feat_eq close (snd sx) xb) eqn:Ef.
+        * rewrite IH. split; intros H.
+          -- constructor; [exists xb; split; [exact E|exact Ef]|exact H].
+          -- inversion H; assumption.
+        * rewrite eq_fold_false. split; [discriminate|].
+          intros H. inversion H as [|? ? [xb' [E' Ef']] _]; subst. rewrite E in E'. injection E' as <-. congruence.
+      + rewrite eq_fold_none. split; [discriminate|].
+        intros H. inversion H as [|? ? [xb' [E' _]] _]; subst. rewrite E in E'. discriminate.
+  Qed.
+
+  (* the boolean answer of __eq__ is Some true exactly on tf_equiv *)
+  Lemma tf_eq_iff_proof : forall a b, tf_eq close a b = Some true <-> tf_equiv close a b.
+  Proof.
+    intros a b. unfold tf_eq, tf_equiv.
+    destruct (tf_num_rows a) as [la|]; cbn [obind];
+      [|split; [discriminate|intros [[n [H _]] _]; discriminate]].
+    destruct (tf_num_rows b) as [lb|]; cbn [obind];
+      [|split; [discriminate|intros [[n [_ H]] _]; discriminate]].
+    destruct (la =? lb) eqn:El; cbn [negb].
+    2:{ apply Nat.eqb_neq in El. split; [discriminate|]. intros [[n [H1 H2]] _]. congruence. }
+    apply Nat.eqb_eq in El. subst lb.
+    assert (Hn : (exists n, Some la = Some n /\ Some la = Some n) <-> True) by (split; [auto|intros _; exists la; auto]).
+    rewrite Hn. clear Hn.
+    change (fold_left _ (feats a) (Some true)) with (fold_left (eq_step b) (feats a) (Some true)).
+    unfold y_equiv.
+    destruct (y a) as [ya|], (y b) as [yb|]; cbn [obind].
+    - destruct (length ya =? length yb) eqn:Ely; cbn [obind].
+      + apply Nat.eqb_eq in Ely. destruct (list_eqb (pclose close false) yb ya) eqn:Ey; cbn [negb].
+        * destruct (names_eqb (names a) (names b)) eqn:En; cbn [negb].
+          -- rewrite eq_fold_true. apply names_eqb_iff in En. apply list_eqb_Forall2 in Ey. tauto.
+          -- split; [discriminate|]. intros [_ [_ [H _]]]. apply names_eqb_iff in H. congruence.
+        * split; [discriminate|]. intros [_ [[_ H] _]]. apply list_eqb_Forall2 in H. congruence.
+      + apply Nat.eqb_neq in Ely. split; [discriminate|]. intros [_ [[H _] _]]. contradiction.
+    - split; [discriminate|]. intros [_ [[] _]].
+    - split; [discriminate|]. intros [_ [[] _]].
+    - cbn [negb]. destruct (names_eqb (names a) (names b)) eqn:En; cbn [negb].
+      + rewrite eq_fold_true. apply names_eqb_iff in En. tauto.
+      + split; [discriminate|]. intros [_ [_ [H _]]]. apply names_eqb_iff in H. congruence.
+  Qed.
+End EqFacts.
+
+(* ------------------------------------------------------------------ *)
+(* flattened storage vs cells *)
+Lemma Forall2_length' : forall {X Y} (R : X -> Y -> Prop) a b, Forall2 R a b -> length a = length b.
+Proof. intros X Y R a b H. induction H; simpl; congruence. Qed.
+
+Lemma Forall2_app_split_len : forall {X} (R : X -> X -> Prop) (a a' b b' : list X),
+  length a = length a' -> Forall2 R (a ++ b) (a' ++ b') -> Forall2 R a a' /\ Forall2 R b b'.
+Proof.
+  intros X R a. induction a as [|x r IH]; intros [|x' r'] b b' Hl H; simpl in *; try discriminate.
+  - split; [constructor|exact H].
+  - inversion H; subst. destruct (IH r' b b') as [H1 H2]; [congruence|assumption|]. split; [constructor|]; assumption.
+Qed.
+
+Lemma Forall2_concat_split : forall {X} (R : X -> X -> Prop) (F F' : list (list X)),
+  map (@length X) F = map (@length X) F' -> Forall2 R (concat F) (concat F') -> Forall2 (Forall2 R) F F'.
+Proof.
+  intros X R F. induction F as [|a r IH]; intros [|a' r'] Hm H; simpl in *; try discriminate.
+  - constructor.
+  - injection Hm as Hl Hm. destruct (Forall2_app_split_len R a a' _ _ Hl H) as [H1 H2].
+    constructor; [exact H1|apply IH; assumption].
+Qed.
+
+Lemma Forall2_concat_join : forall {X} (R : X -> X -> Prop) (F F' : list (list X)),
+  Forall2 (Forall2 R) F F' -> Forall2 R (concat F) (concat F').
+Proof. intros X R F F' H. induction H; simpl; [constructor|]. apply Forall2_app; assumption. Qed.
+
+Lemma Forall2_map_length : forall {X} (R : X -> X -> Prop) (F F' : list (list X)),
+  Forall2 (Forall2 R) F F' -> map (@length X) F = map (@length X) F'.
+Proof. intros X R F F' H. induction H; simpl; [reflexivity|]. f_equal; [eapply Forall2_length'; eassumption|assumption]. Qed.
+
+Lemma cumsum_from_inj : forall l l' a, length l = length l' -> cumsum_from a l = cumsum_from a l' -> l = l'.
+Proof.
+  induction l as [|x r IH]; intros [|x' r'] a Hl H; simpl in *; try discriminate; [reflexivity|].
+  injection H as H1 H2. assert (x = x') by lia. subst x'. f_equal. apply (IH r' (a + x)); congruence.
+Qed.
+
+Lemma offs_inj : forall l l', 0 :: cumsum l = 0 :: cumsum l' -> l = l'.
+Proof.
+  intros l l' H. injection H as H. unfold cumsum in H. apply (cumsum_from_inj l l' 0); [|exact H].
+  rewrite <- (cumsum_from_length l 0), <- (cumsum_from_length l' 0), H. reflexivity.
+Qed.
+
+Lemma list_eqb_nat : forall a b : list nat, list_eqb Nat.eqb a b = true <-> a = b.
+Proof. intros. apply list_eqb_eq. intros; apply Nat.eqb_eq. Qed.
+
+Lemma Forall2_impl : forall {X Y} (R R' : X -> Y -> Prop) a b,
+  (forall x z, R x z -> R' x z) -> Forall2 R a b -> Forall2 R' a b.
+Proof. intros X Y R R' a b H H2. induction H2; constructor; auto. Qed.
+
+Section ViewEq.
+  Variable close : Z -> Z -> bool.
+  Notation pc := (fun a b : payload => pclose close true a b = true).
+
+  Lemma rect_lengths_eq : forall {X} c (m m' : list (list X)),
+    Forall (fun r => length r = c) m -> Forall (fun r => length r = c) m' -> length m = length m' ->
+    map (@length X) m = map (@length X) m'.
+  Proof. intros X c m m' H H' Hl. rewrite (rect_map_length c m H), (rect_map_length c m' H'), Hl. reflexivity. Qed.
+
+  (* MultiNestedTensor.allclose on canonical containers = same column count and close cells *)
+  Lemma mnt_allclose_cells : forall c c' (m m' : cmat),
+    rect c m -> rect c' m' ->
+    (mnt_allclose close true (mnt_of_cells c m) (mnt_of_cells c' m') = true <->
+     length m = length m' /\ c = c' /\ cells_close close m m').
+  Proof.
+    intros c c' m m' Hr Hr'. unfold mnt_allclose, mnt_of_cells, cells_close. cbn [nr nc vals offs].
+    rewrite !andb_true_iff, !Nat.eqb_eq, list_eqb_Forall2, list_eqb_nat. split.
+    - intros [[[[[Hn Hc] _] Hv] _] Ho]. subst c'. split; [exact Hn|split; [reflexivity|]].
+      apply offs_inj in Ho.
+      apply (Forall2_concat_split _ _ _ Ho) in Hv.
+      apply Forall2_concat_split; [|exact Hv]. apply (rect_lengths_eq c); assumption.
+    - intros [Hn [Hc H]]. subst c'.
+      pose proof (Forall2_concat_join _ _ _ H) as H1. pose proof (Forall2_concat_join _ _ _ H1) as H2.
+      pose proof (Forall2_map_length _ _ _ H1) as Hm.
+      repeat split; try assumption; try reflexivity.
+      + eapply Forall2_length'; exact H2.
+      + rewrite Hm. reflexivity.
+      + rewrite Hm. reflexivity.
+  Qed.
+
+  Definition same_shape (m m' : cmat) : Prop := Forall2 (fun r r' => map (@length payload) r = map (@length payload) r') m m'.
+
+  Lemma rows_close_split : forall m m' : cmat,
+    same_shape m m' -> Forall2 (fun r r' => Forall2 pc (concat r) (concat r')) m m' -> cells_close close m m'.
+  Proof.
+    intros m m' Hs. induction Hs as [|r r' m m' Hr Hs IH]; intros H; [constructor|].
+    inversion H; subst. constructor; [|apply IH; assumption]. apply Forall2_concat_split; assumption.
+  Qed.
+
+  Lemma rows_close_join : forall m m' : cmat,
+    cells_close close m m' -> Forall2 (Forall2 pc) (map (@concat payload) m) (map (@concat payload) m').
+  Proof.
+    intros m m' H. induction H; simpl; constructor; [|assumption]. apply Forall2_concat_join. assumption.
+  Qed.
+
+  Lemma Forall2_map_same : forall {X Y} (R : Y -> Y -> Prop) (f : X -> Y) a b,
+    Forall2 R (map f a) (map f b) -> Forall2 (fun x z => R (f x) (f z)) a b.
+  Proof.
+    intros X Y R f a. induction a as [|x r IH]; intros [|z b] H; simpl in *; inversion H; subst; constructor; auto.
+  Qed.
+
+  Lemma rect_w_same_shape : forall ws (m m' : cmat), rect_w ws m -> rect_w ws m' -> length m = length m' -> same_shape m m'.
+  Proof.
+    intros ws m. induction m as [|r m IH]; intros [|r' m'] H H' Hl; simpl in *; try discriminate; [constructor|].
+    inversion H; inversion H'; subst. constructor; [congruence|]. apply IH; [assumption|assumption|congruence].
+  Qed.
+
+  Lemma cells_close_length : forall m m' : cmat, cells_close close m m' -> length m = length m'.
+  Proof. intros m m' H. eapply Forall2_length'; exact H. Qed.
+
+  Lemma met_allclose_cells : forall ws ws' (m m' : cmat),
+    rect_w ws m -> rect_w ws' m' ->
+    (met_allclose close true (met_of_cells ws m) (met_of_cells ws' m') = true <->
+     length m = length m' /\ ws = ws' /\ cells_close close m m').
+  Proof.
+    intros ws ws' m m' Hr Hr'. unfold met_allclose, met_of_cells. cbn [er ec evals eoffs t2rows t2w].
+    rewrite !andb_true_iff, !Nat.eqb_eq, list_eqb_nat, list_eqb_Forall2. split.
+    - intros [[[[[[Hn _] _] _] Hv] _] Ho]. apply offs_inj in Ho. subst ws'.
+      split; [exact Hn|split; [reflexivity|]].
+      apply rows_close_split; [apply (rect_w_same_shape ws); assumption|].
+      apply Forall2_map_same in Hv. eapply Forall2_impl; [|exact Hv]. simpl. intros a b Hab.
+      apply list_eqb_Forall2 in Hab. exact Hab.
+    - intros [Hn [Hw H]]. subst ws'. rewrite !map_length.
+      repeat split; try assumption; try reflexivity.
+      pose proof (rows_close_join m m' H) as H1. eapply Forall2_impl; [|exact H1]. simpl. intros a b Hab.
+      apply list_eqb_Forall2. exact Hab.
+  Qed.
+
+  Definition dense_wf (c k : nat) (m : cmat) : Prop :=
+    Forall (fun r => length r = c /\ Forall (fun cl : list payload => length cl = k) r) m.
+
+  Lemma dense_same_shape : forall c k (m m' : cmat), dense_wf c k m -> dense_wf c k m' -> length m = length m' -> same_shape m m'.
+  Proof.
+    intros c k m. induction m as [|r m IH]; intros [|r' m'] H H' Hl; simpl in *; try discriminate; [constructor|].
+    inversion H as [|? ? [Hc Hk] Hm]; inversion H' as [|? ? [Hc' Hk'] Hm']; subst.
+    constructor; [|apply IH; [assumption|assumption|congruence]].
+    rewrite (rect_map_length k r Hk), (rect_map_length k r' Hk'). congruence.
+  Qed.
+
+  Lemma dense_eq_cells : forall c c' k k' (m m' : cmat),
+    dense_wf c k m -> dense_wf c' k' m' ->
+    (feat_eq close (FDense (map (@concat payload) m) c k) (FDense (map (@concat payload) m') c' k') = true <->
+     length m = length m' /\ c = c' /\ k = k' /\ cells_close close m m').
+  Proof.
+    intros c c' k k' m m' Hw Hw'. cbn [feat_eq]. rewrite !andb_true_iff, !Nat.eqb_eq, list_eqb_Forall2, !map_length. split.
+    - intros [[[Hn Hc] Hk] Hv]. subst c' k'. repeat split; try assumption.
+      apply rows_close_split; [apply (dense_same_shape c k); assumption|].
+      apply Forall2_map_same in Hv. eapply Forall2_impl; [|exact Hv]. simpl. intros a b Hab.
+      apply list_eqb_Forall2 in Hab. exact Hab.
+    - intros [Hn [Hc [Hk H]]]. subst c' k'. repeat split; try assumption.
+      pose proof (rows_close_join m m' H) as H1. eapply Forall2_impl; [|exact H1]. simpl. intros a b Hab.
+      apply list_eqb_Forall2. exact Hab.
+  Qed.
+End ViewEq.
+
+Lemma alookup_map_snd : forall {V W} (g : V -> W) k (d : list (string * V)),
+  alookup String.eqb k (map (fun kv => (fst kv, g (snd kv))) d) = option_map g (alookup String.eqb k d).
+Proof.
+  intros V W g k d. induction d as [|[k' v] r IH]; simpl; [reflexivity|].
+  destruct (String.eqb k k'); [reflexivity|exact IH].
+Qed.
+
+Lemma alookup_map_snd_st : forall {V W} (g : V -> W) k (d : list (stype * V)),
+  alookup stype_eqb k (map (fun kv => (fst kv, g (snd kv))) d) = option_map g (alookup stype_eqb k d).
+Proof.
+  intros V W g k d. induction d as [|[k' v] r IH]; simpl; [reflexivity|].
+  destruct (stype_eqb k k'); [reflexivity|exact IH].
+Qed.
+
+Section ViewEq2.
+  Variable close : Z -> Z -> bool.
+
+  Lemma keys_eqb_iff : forall a b : list string,
+    keys_eqb String.eqb a b = true <->
+    length a = length b /\ (forall k, In k a -> In k b) /\ (forall k, In k b -> In k a).
+  Proof.
+    intros a b. unfold keys_eqb. rewrite !andb_true_iff, Nat.eqb_eq, !forallb_forall. split.
+    - intros [[Hl H1] H2]. repeat split; try assumption; intros k Hk;
+        apply (amem_In String.eqb str_eqb_spec); [apply H1|apply H2]; exact Hk.
+    - intros [Hl [H1 H2]]. repeat split; try assumption; intros k Hk;
+        apply (amem_In String.eqb str_eqb_spec); [apply H1|apply H2]; exact Hk.
+  Qed.
+
+  (* feature equality of __eq__ on stored views = closeness of the views *)
+  Lemma feat_eq_views_proof : forall n n' v v',
+    view_wf n v -> view_wf n' v' ->
+    (feat_eq close (feat_of_view v) (feat_of_view v') = true <-> view_close close v v').
+  Proof.
+    intros n n' v v' Hw Hw'.
+    destruct v as [c k m|c m|ws m|d], v' as [c' k' m'|c' m'|ws' m'|d'];
+      try (cbn [feat_of_view feat_eq view_close]; split; [discriminate|tauto]).
+    - cbn [feat_of_view view_close view_wf] in *. destruct Hw as [_ Hw], Hw' as [_ Hw'].
+      rewrite (dense_eq_cells close c c' k k' m m' Hw Hw'). split; [tauto|].
+      intros [Hc [Hk H]]. repeat split; try assumption. apply (cells_close_length close). exact H.
+    - cbn [feat_of_view feat_eq view_close view_wf] in *. destruct Hw as [_ Hw], Hw' as [_ Hw'].
+      rewrite (mnt_allclose_cells close c c' m m' Hw Hw'). split; [tauto|].
+      intros [Hc H]. repeat split; try assumption. apply (cells_close_length close). exact H.
+    - cbn [feat_of_view feat_eq view_close view_wf] in *. destruct Hw as [_ Hw], Hw' as [_ Hw'].
+      rewrite (met_allclose_cells close ws ws' m m' Hw Hw'). split; [tauto|].
+      intros [Hc H]. repeat split; try assumption. apply (cells_close_length close). exact H.
+    - cbn [feat_of_view feat_eq view_close view_wf] in *. destruct Hw as [_ Hw], Hw' as [_ Hw'].
+      rewrite Forall_forall in Hw, Hw'.
+      rewrite andb_true_iff, keys_eqb_iff, forallb_forall, !map_map, !map_length. cbn [fst]. split.
+      + intros [[Hl [H1 H2]] Hf]. split; [exact Hl|]. split; [exact H2|].
+        intros kk c m Hin. specialize (Hf (kk, mnt_of_cells c m)). cbn [fst snd] in Hf.
+        pose proof (alookup_map_snd (fun cm : nat * cellmat payload => mnt_of_cells (fst cm) (snd cm)) kk d') as Hm.
+        cbn beta in Hm. rewrite Hm in Hf. clear Hm.
+        assert (Hin' : In (kk, mnt_of_cells c m) (map (fun kcm : string * (nat * cellmat payload) =>
+                   (fst kcm, mnt_of_cells (fst (snd kcm)) (snd (snd kcm)))) d)).
+        { apply in_map_iff. exists (kk, (c, m)). split; [reflexivity|exact Hin]. }
+        specialize (Hf Hin').
+        destruct (alookup String.eqb kk d') as [[c' m']|] eqn:E; cbn [option_map] in Hf; [|discriminate].
+        pose proof (alookup_In String.eqb str_eqb_spec _ _ _ E) as Hin2.
+        destruct (Hw _ Hin) as [_ Hr]. destruct (Hw' _ Hin2) as [_ Hr']. cbn [fst snd] in *.
+        apply (mnt_allclose_cells close c c' m m' Hr Hr') in Hf. destruct Hf as [_ [<- Hc]].
+        exists m'. split; [reflexivity|exact Hc].
+      + intros [Hl [H2 H3]]. split.
+        * split; [exact Hl|]. split; [|exact H2].
+          intros kk Hk. apply in_map_iff in Hk. destruct Hk as [[k0 [c m]] [<- Hin]]. cbn [fst].
+          destruct (H3 k0 c m Hin) as [m' [E _]]. apply (alookup_In String.eqb str_eqb_spec) in E.
+          apply in_map_iff. exists (k0, (c, m')). split; [reflexivity|exact E].
+        * intros [kk t] Hin. apply in_map_iff in Hin. destruct Hin as [[k0 [c m]] [E Hin]]. injection E as <- <-.
+          cbn [fst snd].
+          pose proof (alookup_map_snd (fun cm : nat * cellmat payload => mnt_of_cells (fst cm) (snd cm)) k0 d') as Hm.
+          cbn beta in Hm. rewrite Hm. clear Hm.
+          destruct (H3 k0 c m Hin) as [m' [E Hc]]. rewrite E. cbn [option_map fst snd].
+          pose proof (alookup_In String.eqb str_eqb_spec _ _ _ E) as Hin2.
+          destruct (Hw _ Hin) as [_ Hr]. destruct (Hw' _ Hin2) as [_ Hr']. cbn [fst snd] in *.
+          apply (mnt_allclose_cells close c c m m' Hr Hr'). repeat split; try assumption.
+          apply (cells_close_length close). exact Hc.
+  Qed.
+
+  Hypothesis close_refl : forall z, close z z = true.
+
+  Lemma pclose_refl : forall p, pclose close true p p = true.
+  Proof. intros [z|]; simpl; [apply close_refl|reflexivity]. Qed.
+
+  Lemma cells_close_refl : forall m : cmat, cells_close close m m.
+  Proof.
+    intros m. unfold cells_close. induction m as [|r m IH]; constructor; [|exact IH].
+    induction r as [|cl r IHr]; constructor; [|exact IHr].
+    induction cl as [|p cl IHc]; constructor; [apply pclose_refl|exact IHc].
+  Qed.
+
+  Lemma view_close_refl : forall v, vdict_ok v -> view_close close v v.
+  Proof.
+    intros v Hd. destruct v as [c k m|c m|ws m|d]; cbn [view_close vdict_ok] in *;
+      try (repeat split; try reflexivity; apply cells_close_refl).
+    destruct Hd as [Hnd _]. split; [reflexivity|]. split; [tauto|].
+    intros kk c m Hin. exists m. split; [|apply cells_close_refl].
+    apply (In_alookup String.eqb str_eqb_spec); assumption.
+  Qed.
+End ViewEq2.
+
+Lemma Forall2_nth : forall {X} (R : X -> X -> Prop) (a b : list X) (d d' : X) i,
+  Forall2 R a b -> i < length a -> R (nth i a d) (nth i b d').
+Proof.
+  intros X R a b d d' i H. revert i. induction H; intros i Hi; simpl in *; [lia|].
+  destruct i; [assumption|]. apply IHForall2. lia.
+Qed.
+
+Section Perturb.
+  Variable close : Z -> Z -> bool.
+
+  Lemma cells_close_scalar : forall (m m' : cmat) i j k,
+    cells_close close m m' ->
+    i < length m -> j < length (nth i m []) -> k < length (nth j (nth i m []) []) ->
+    pclose close true (scalar_at m i j k) (scalar_at m' i j k) = true.
+  Proof.
+    intros m m' i j k H Hi Hj Hk. unfold scalar_at.
+    pose proof (Forall2_nth _ m m' [] [] i H Hi) as H1.
+    pose proof (Forall2_nth _ _ _ [] [] j H1 Hj) as H2.
+    exact (Forall2_nth _ _ _ None None k H2 Hk).
+  Qed.
+
+  Lemma view_close_comp : forall key v v' m,
+    view_close close v v' -> view_comp key v = Some m ->
+    exists m', view_comp key v' = Some m' /\ cells_close close m m'.
+  Proof.
+    intros key v v' m H E.
+    destruct v as [c k0 m0|c m0|ws m0|d], v' as [c' k' m'|c' m'|ws' m'|d']; cbn [view_close] in H; try contradiction;
+      destruct key as [kk|]; cbn [view_comp] in *; try discriminate.
+    - injection E as <-. exists m'. split; [reflexivity|tauto].
+    - injection E as <-. exists m'. split; [reflexivity|tauto].
+    - injection E as <-. exists m'. split; [reflexivity|tauto].
+    - destruct (alookup String.eqb kk d) as [[c m1]|] eqn:El; cbn [option_map snd] in E; [|discriminate].
+      injection E as <-. destruct H as [_ [_ H]].
+      apply (alookup_In String.eqb str_eqb_spec) in El. destruct (H kk c m1 El) as [m' [E' Hc]].
+      exists m'. rewrite E'. split; [reflexivity|exact Hc].
+  Qed.
+
+  Lemma eq_fold_some : forall b l r0,
+    (forall sx, In sx l -> exists xb, alookup stype_eqb (fst sx) (feats b) = Some xb) ->
+    exists r, fold_left (eq_step close b) l (Some r0) = Some r.
+  Proof.
+    intros b l. induction l as [|sx r IH]; intros r0 H; cbn [fold_left]; [exists r0; reflexivity|].
+    unfold eq_step at 2. cbn [obind]. destruct r0; cbn [negb].
+    - destruct (H sx (or_introl eq_refl)) as [xb E]. rewrite E. cbn [obind]. apply IH. intros z Hz. apply H. right; exact Hz.
+    - apply IH. intros z Hz. apply H. right; exact Hz.
+  Qed.
+
+  (* __eq__ does not raise on frames over the same stypes whose targets have the lengths of the frames *)
+  Lemma tf_eq_total : forall a b la lb,
+    tf_num_rows a = Some la -> tf_num_rows b = Some lb ->
+    (forall u v, y a = Some u -> y b = Some v -> length u = la /\ length v = lb) ->
+    (forall sx, In sx (feats a) -> exists xb, alookup stype_eqb (fst sx) (feats b) = Some xb) ->
+    exists r, tf_eq close a b = Some r.
+  Proof.
+    intros a b la lb Ha Hb Hy Hk. unfold tf_eq. rewrite Ha, Hb. cbn [obind].
+    destruct (la =? lb) eqn:El; cbn [negb]; [|exists false; reflexivity]. apply Nat.eqb_eq in El. subst lb.
+    change (fold_left _ (feats a) (Some true)) with (fold_left (eq_step close b) (feats a) (Some true)).
+    destruct (y a) as [u|], (y b) as [v|]; cbn [obind]; try (exists false; reflexivity).
+    - destruct (Hy u v eq_refl eq_refl) as [H1 H2]. rewrite H1, H2, Nat.eqb_refl. cbn [obind].
+      destruct (list_eqb (pclose close false) v u); cbn [negb]; [|exists false; reflexivity].
+      destruct (names_eqb (names a) (names b)); cbn [negb]; [|exists false; reflexivity].
+      apply eq_fold_some. exact Hk.
+    - cbn [negb]. destruct (names_eqb (names a) (names b)); cbn [negb]; [|exists false; reflexivity].
+      apply eq_fold_some. exact Hk.
+  Qed.
+
+  Lemma tf_eq_false_intro : forall a b, (exists r, tf_eq close a b = Some r) -> ~ tf_equiv close a b -> tf_eq close a b = Some false.
+  Proof.
+    intros a b [r E] H. destruct r; [|exact E]. exfalso. apply H. apply tf_eq_iff_proof. exact E.
+  Qed.
+
+  Lemma frames_eq_total : forall n n' vs vs' nm nm' yy yy' ov ov',
+    frame_wf n vs yy ov -> frame_wf n' vs' yy' ov' ->
+    (forall s, In s (map fst vs) -> In s (map fst vs')) ->
+    exists r, tf_eq close (frame_of vs nm yy ov) (frame_of vs' nm' yy' ov') = Some r.
+  Proof.
+    intros n n' vs vs' nm nm' yy yy' ov ov' Hw Hw' Hk.
+    apply (tf_eq_total _ _ n n'); try (apply num_rows_frame_of; assumption).
+    - cbn [frame_of y]. intros u v -> ->. destruct Hw as [_ [Hy _]], Hw' as [_ [Hy' _]]. auto.
+    - cbn [frame_of feats]. intros [s x] Hin. cbn [fst]. apply in_map_iff in Hin. destruct Hin as [[s' v] [E Hin]].
+      injection E as <- <-. assert (Hs : In s' (map fst vs')) by (apply Hk; apply in_map_iff; exists (s', v); auto).
+      destruct (alookup stype_eqb s' (map (fun sv : stype * fview => (fst sv, feat_of_view (snd sv))) vs')) as [xb|] eqn:E;
+        [exists xb; reflexivity|].
+      apply (alookup_None stype_eqb stype_eqb_spec) in E. rewrite map_map in E. cbn [fst] in E. contradiction.
+  Qed.
+
+  (* a difference beyond tolerance in any single scalar of any feature of any storage kind makes frames unequal *)
+  Lemma cell_perturbation_detected_proof : forall n n' vs vs' nm nm' yy yy' ov ov' s v v' key m m' i j k,
+    frame_wf n vs yy ov -> frame_wf n' vs' yy' ov' ->
+    NoDup (map fst vs') -> (forall s, In s (map fst vs) -> In s (map fst vs')) ->
+    In (s, v) vs -> In (s, v') vs' ->
+    view_comp key v = Some m -> view_comp key v' = Some m' ->
+    i < length m -> j < length (nth i m []) -> k < length (nth j (nth i m []) []) ->
+    pclose close true (scalar_at m i j k) (scalar_at m' i j k) = false ->
+    tf_eq close (frame_of vs nm yy ov) (frame_of vs' nm' yy' ov') = Some false.
+  Proof.
+    intros n n' vs vs' nm nm' yy yy' ov ov' s v v' key m m' i j k Hw Hw' Hnd Hk Hin Hin' Ec Ec' Hi Hj Hkk Hp.
+    apply tf_eq_false_intro; [apply (frames_eq_total n n'); assumption|].
+    intros [_ [_ [_ Hf]]]. cbn [frame_of feats] in Hf. rewrite Forall_forall in Hf.
+    specialize (Hf (s, feat_of_view v)). cbn [fst snd] in Hf.
+    destruct Hf as [xb [E Hfe]]; [apply in_map_iff; exists (s, v); auto|].
+    pose proof (alookup_map_snd_st feat_of_view s vs') as Hm. cbn beta in Hm. rewrite Hm in E. clear Hm.
+    rewrite (In_alookup stype_eqb stype_eqb_spec s v' vs' Hnd Hin') in E. cbn [option_map] in E. injection E as <-.
+    destruct Hw as [Hv _], Hw' as [Hv' _]. rewrite Forall_forall in Hv, Hv'.
+    apply (feat_eq_views_proof close n n' v v' (Hv _ Hin) (Hv' _ Hin')) in Hfe.
+    destruct (view_close_comp key v v' m Hfe Ec) as [m2 [E2 Hc]]. rewrite Ec' in E2. injection E2 as <-.
+    pose proof (cells_close_scalar m m' i j k Hc Hi Hj Hkk) as Ht. congruence.
+  Qed.
+
+  (* ... in a target value ... *)
+  Lemma target_perturbation_detected_proof : forall a b u v i,
+    (exists r, tf_eq close a b = Some r) ->
+    y a = Some u -> y b = Some v -> i < length v ->
+    pclose close false (nth i v None) (nth i u None) = false ->
+    tf_eq close a b = Some false.
+  Proof.
+    intros a b u v i Ht Ha Hb Hi Hp. apply tf_eq_false_intro; [exact Ht|].
+    intros [_ [Hy _]]. unfold y_equiv in Hy. rewrite Ha, Hb in Hy. destruct Hy as [_ Hy].
+    pose proof (Forall2_nth _ v u None None i Hy Hi) as H. simpl in H. congruence.
+  Qed.
+
+  Lemma target_presence_detected_proof : forall a b,
+    (exists r, tf_eq close a b = Some r) ->
+    (y a = None <-> y b <> None) -> tf_eq close a b = Some false.
+  Proof.
+    intros a b Ht H. apply tf_eq_false_intro; [exact Ht|].
+    intros [_ [Hy _]]. unfold y_equiv in Hy. destruct (y a), (y b); try contradiction.
+    - destruct H as [_ H]. assert (Some l = None) by (apply H; discriminate). discriminate.
+    - destruct H as [H _]. apply (H eq_refl). reflexivity.
+  Qed.
+
+  (* ... or in any column name *)
+  Lemma name_perturbation_detected_proof : forall a b s cn,
+    (exists r, tf_eq close a b = Some r) ->
+    In (s, cn) (names a) -> alookup stype_eqb s (names b) <> Some cn ->
+    tf_eq close a b = Some false.
+  Proof.
+    intros a b s cn Ht Hin Hne. apply tf_eq_false_intro; [exact Ht|].
+    intros [_ [_ [[_ Hn] _]]]. apply Hne. apply Hn. exact Hin.
+  Qed.
+End Perturb.
+
+(* ------------------------------------------------------------------ *)
+(* torch_frame.cat along rows *)
+Lemma pick_rows_concat : forall {A} (poss : list (list nat)) (m : cellmat A),
+  concat (map (fun pos => pick_rows pos m) poss) = pick_rows (concat poss) m.
+Proof. intros A poss m. unfold pick_rows. rewrite concat_map. reflexivity. Qed.
+
+Lemma ysel_concat : forall (poss : list (list nat)) (yv : list payload),
+  concat (map (fun pos => ysel pos yv) poss) = ysel (concat poss) yv.
+Proof. intros poss yv. unfold ysel. rewrite concat_map. reflexivity. Qed.
+
+Lemma sum_map_length_concat' : forall {X} (l : list (list X)), sum (map (@length X) l) = length (concat l).
+Proof. intros X l. induction l as [|a r IH]; simpl; [reflexivity|]. rewrite app_length, IH. reflexivity. Qed.
+
+Section CatRows.
+  Variable mnt_cat : list (mnt payload) -> nat -> option (mnt payload).
+  Variable met_cat : list (met payload) -> nat -> option (met payload).
+  (* The ragged containers' own cat along rows: cells of the result = the parts' rows in order
+     (C06: cells (cat0 ts) = concat (map cells ts)) *)
+  Hypothesis H_mnt_cat_rows : forall c (ms : list (cellmat payload)),
+    ms <> [] -> Forall (rect c) ms -> mnt_cat (map (mnt_of_cells c) ms) 0 = Some (mnt_of_cells c (concat ms)).
+  Hypothesis H_met_cat_rows : forall ws (ms : list (cellmat payload)),
+    ms <> [] -> Forall (rect_w ws) ms -> met_cat (map (met_of_cells ws) ms) 0 = Some (met_of_cells ws (concat ms)).
+
+  Lemma cat_data_rows : forall n v poss,
+    view_wf n v -> vdict_ok v -> poss <> [] -> Forall (Forall (fun i => i < n)) poss ->
+    cat_tensor_data mnt_cat met_cat (map (fun pos => feat_of_view (vsel pos v)) poss) 0
+    = Some (feat_of_view (vsel (concat poss) v)).
+  Proof.
+    intros n v poss Hw Hd Hne Hp.
+    destruct poss as [|p [|p2 rest]]; [congruence| |].
+    { cbn [map cat_tensor_data concat]. rewrite app_nil_r. reflexivity. }
+    set (poss := p :: p2 :: rest) in *.
+    assert (Hgen : forall (l : list feat) x x2 r, l = x :: x2 :: r ->
+              cat_tensor_data mnt_cat met_cat l 0 =
+              match x with
+              | FDense _ _ _ => ds <- mapM as_dense l ;; r <- dense_cat ds 0 ;;
+                                Some (FDense (fst (fst r)) (snd (fst r)) (snd r))
+              | FEmb _ => ts <- mapM as_emb l ;; option_map FEmb (met_cat ts 0)
+              | FNested _ => ts <- mapM as_nested l ;; option_map FNested (mnt_cat ts 0)
+              | FDict d0 => ds <- mapM as_dict l ;;
+                  option_map FDict
+                    (mapM (fun kv => ts <- mapM (alookup String.eqb (fst kv)) ds ;;
+                                     option_map (pair (fst kv)) (mnt_cat ts 0)) d0)
+              end) by (intros l x x2 r ->; reflexivity).
+    destruct v as [c k m|c m|ws m|d]; cbn [vsel vmap feat_of_view view_wf vdict_ok] in *.
+    - destruct Hw as [Hn Hw].
+      erewrite Hgen by (unfold poss; cbn [map]; reflexivity). cbv beta iota.
+      rewrite mapM_map. erewrite (mapM_all_some _ (fun pos => (map (@concat payload) (pick_rows pos m), c, k)))
+        by (intros; reflexivity). cbn [obind].
+      unfold poss at 1. cbn [map dense_cat Nat.eqb]. fold poss.
+      assert (Hf : forallb (fun d0 : list (list payload) * nat * nat => (snd (fst d0) =? c) && (snd d0 =? k))
+                     (map (fun pos => (map (@concat payload) (pick_rows pos m), c, k)) poss) = true).
+      { apply forallb_forall. intros x Hx. apply in_map_iff in Hx. destruct Hx as [pos [<- _]]. cbn [fst snd].
+        rewrite !Nat.eqb_refl. reflexivity. }
+      unfold poss in Hf at 1. cbn [map] in Hf. fold poss in Hf. 
+      change ((map (@concat payload) (pick_rows p m), c, k) :: (map (@concat payload) (pick_rows p2 m), c, k)
+              :: map (fun pos => (map (@concat payload) (pick_rows pos m), c, k)) rest)
+        with (map (fun pos => (map (@concat payload) (pick_rows pos m), c, k)) poss) in *.
+      rewrite Hf. cbn [obind fst snd]. rewrite map_map. cbn [fst].
+      f_equal. f_equal. rewrite <- pick_rows_concat, concat_map, map_map. reflexivity.
+    - destruct Hw as [Hn Hw].
+      erewrite Hgen by (unfold poss; cbn [map]; reflexivity). cbv beta iota.
+      rewrite mapM_map. erewrite (mapM_all_some _ (fun pos => mnt_of_cells c (pick_rows pos m))) by (intros; reflexivity).
+      cbn [obind]. rewrite <- (map_map (fun pos => pick_rows pos m) (mnt_of_cells c)).
+      rewrite H_mnt_cat_rows.
+      + cbn [option_map]. rewrite pick_rows_concat. reflexivity.
+      + unfold poss. discriminate.
+      + apply Forall_map. eapply Forall_impl; [|exact Hp]. cbn beta. intros pos Hpos.
+        apply pick_rows_rect; [exact Hw|rewrite Hn; exact Hpos].
+    - destruct Hw as [Hn Hw].
+      erewrite Hgen by (unfold poss; cbn [map]; reflexivity). cbv beta iota.
+      rewrite mapM_map. erewrite (mapM_all_some _ (fun pos => met_of_cells ws (pick_rows pos m))) by (intros; reflexivity).
+      cbn [obind]. rewrite <- (map_map (fun pos => pick_rows pos m) (met_of_cells ws)).
+      rewrite H_met_cat_rows.
+      + cbn [option_map]. rewrite pick_rows_concat. reflexivity.
+      + unfold poss. discriminate.
+      + apply Forall_map. eapply Forall_impl; [|exact Hp]. cbn beta. intros pos Hpos.
+        apply pick_rows_rect_w; [exact Hw|rewrite Hn; exact Hpos].
+    - destruct Hw as [Hne' Hw]. destruct Hd as [Hnd _].
+      erewrite Hgen by (unfold poss; cbn [map]; reflexivity). cbv beta iota.
+      rewrite mapM_map.
+      erewrite (mapM_all_some _ (fun pos => map (fun kcm : string * (nat * cellmat payload) =>
+                  (fst kcm, mnt_of_cells (fst (snd kcm)) (snd (snd kcm))))
+                  (map (fun kcm => (fst kcm, (fst (snd kcm), pick_rows pos (snd (snd kcm))))) d)))
+        by (intros; reflexivity).
+      cbn [obind]. rewrite !map_map. cbn [fst snd].
+      rewrite mapM_map. cbn [fst snd].
+      erewrite (mapM_all_some _ (fun kcm : string * (nat * cellmat payload) =>
+                  (fst kcm, mnt_of_cells (fst (snd kcm)) (pick_rows (concat poss) (snd (snd kcm)))))).
+      + cbn [option_map]. reflexivity.
+      + intros [kk [c m]] Hin. cbn [fst snd].
+        rewrite mapM_map.
+        erewrite (mapM_all_some _ (fun pos => mnt_of_cells c (pick_rows pos m))).
+        * cbn [obind]. rewrite <- (map_map (fun pos => pick_rows pos m) (mnt_of_cells c)).
+          rewrite H_mnt_cat_rows.
+          -- cbn [option_map]. rewrite pick_rows_concat. reflexivity.
+          -- unfold poss. discriminate.
+          -- rewrite Forall_forall in Hw. destruct (Hw _ Hin) as [Hn Hr]. cbn [fst snd] in *.
+             apply Forall_map. eapply Forall_impl; [|exact Hp]. cbn beta. intros pos Hpos.
+             apply pick_rows_rect; [exact Hr|rewrite Hn; exact Hpos].
+        * intros pos _.
+          apply (In_alookup String.eqb str_eqb_spec).
+          -- rewrite !map_map. cbn [fst]. rewrite (map_ext _ fst (fun _ => eq_refl)). exact Hnd.
+          -- rewrite map_map. apply in_map_iff. exists (kk, (c, m)). split; [reflexivity|exact Hin].
+  Qed.
+
+  Lemma filter_none : forall {X} (f : X -> bool) (l : list X), (forall x, In x l -> f x = false) -> filter f l = [].
+  Proof.
+    intros X f l. induction l as [|a r IH]; intros H; simpl; [reflexivity|].
+    rewrite (H a (or_introl eq_refl)). apply IH. intros x Hx. apply H. right; exact Hx.
+  Qed.
+
+  Lemma filter_key_unique : forall {X Y} (h : X -> Y) (vs : list (stype * X)) s v,
+    NoDup (map fst vs) -> In (s, v) vs ->
+    filter (fun kv : stype * Y => stype_eqb s (fst kv)) (map (fun sv => (fst sv, h (snd sv))) vs) = [(s, h v)].
+  Proof.
+    intros X Y h vs s v. induction vs as [|[s' v'] r IH]; intros Hnd Hin; [contradiction|].
+    inversion Hnd as [|? ? Hni Hnd']; subst. cbn [map filter fst snd]. destruct Hin as [E|Hin].
+    - injection E as -> ->. rewrite stype_eqb_refl. f_equal.
+      apply filter_none. intros [s2 y2] Hin2. cbn [fst]. apply in_map_iff in Hin2.
+      destruct Hin2 as [[s3 v3] [E3 Hin3]]. injection E3 as <- <-. cbn [fst].
+      apply (keqb_neq stype_eqb stype_eqb_spec). intros ->. apply Hni. apply in_map_iff. exists (s3, v3). auto.
+    - assert (Hne : s <> s').
+      { intros ->. apply Hni. apply in_map_iff. exists (s', v). auto. }
+      rewrite (keqb_neq stype_eqb stype_eqb_spec _ _ Hne). apply IH; assumption.
+  Qed.
+
+  Lemma filter_key_absent : forall {X Y} (h : X -> Y) (vs : list (stype * X)) s,
+    ~ In s (map fst vs) ->
+    filter (fun kv : stype * Y => stype_eqb s (fst kv)) (map (fun sv => (fst sv, h (snd sv))) vs) = [].
+  Proof.
+    intros X Y h vs s Hni. apply filter_none. intros [s2 y2] Hin2. cbn [fst]. apply in_map_iff in Hin2.
+    destruct Hin2 as [[s3 v3] [E3 Hin3]]. injection E3 as <- <-. cbn [fst].
+    apply (keqb_neq stype_eqb stype_eqb_spec). intros ->. apply Hni. apply in_map_iff. exists (s3, v3). auto.
+  Qed.
+
+  (* the flat (stype, [feature]) list of parts that are all built from the same views *)
+  Definition parts_flat (vs : list (stype * fview)) (G : list nat -> fview -> fview) (poss : list (list nat))
+    : list (stype * list feat) :=
+    flat_map (fun pos => map (fun sv : stype * fview => (fst sv, [feat_of_view (G pos (snd sv))])) vs) poss.
+
+  Lemma parts_flat_vals : forall vs G poss s v,
+    NoDup (map fst vs) -> In (s, v) vs ->
+    vals_of stype_eqb s (parts_flat vs G poss) = map (fun pos => feat_of_view (G pos v)) poss.
+  Proof.
+    intros vs G poss s v Hnd Hin. unfold vals_of, parts_flat. induction poss as [|p r IH]; [reflexivity|].
+    cbn [flat_map]. rewrite filter_app, map_app, concat_app, IH.
+    rewrite (filter_key_unique (fun v0 => [feat_of_view (G p v0)]) vs s v Hnd Hin). reflexivity.
+  Qed.
+
+  Lemma parts_flat_has : forall vs G poss s,
+    has_key stype_eqb s (parts_flat vs G poss) = true <-> (poss <> [] /\ In s (map fst vs)).
+  Proof.
+    intros vs G poss s. unfold has_key, parts_flat. rewrite existsb_exists. split.
+    - intros [[s' l] [Hin E]]. cbn [fst] in E. apply stype_eqb_spec in E. subst s'.
+      apply in_flat_map in Hin. destruct Hin as [pos [Hpos Hin]]. split; [destruct poss; [contradiction|discriminate]|].
+      apply in_map_iff in Hin. destruct Hin as [[s2 v2] [E Hin]]. injection E as <- _. apply in_map_iff. exists (s2, v2). auto.
+    - intros [Hne Hin]. destruct poss as [|p r]; [congruence|]. apply in_map_iff in Hin. destruct Hin as [[s2 v2] [<- Hin]].
+      exists (s2, [feat_of_view (G p v2)]). split; [|cbn [fst]; apply stype_eqb_refl].
+      apply in_flat_map. exists p. split; [left; reflexivity|]. apply in_map_iff. exists (s2, v2). auto.
+  Qed.
+
+  Lemma flat_feats_sel : forall vs nm yy ov poss,
+    flat_feats (map (fun pos => sel_frame pos vs nm yy ov) poss) = parts_flat vs vsel poss.
+  Proof.
+    intros. unfold flat_feats, parts_flat. rewrite flat_map_concat_map, map_map, <- flat_map_concat_map.
+    apply flat_map_ext. intros pos. unfold sel_frame, frame_of. cbn [feats]. rewrite !map_map. reflexivity.
+  Qed.
+
+  Lemma vsel_id : forall n v, view_wf n v -> vsel (seq 0 n) v = v.
+  Proof.
+    intros n v Hw.
+    assert (Hp : forall m : cellmat payload, length m = n -> pick_rows (seq 0 n) m = m).
+    { intros m <-. unfold pick_rows. symmetry. apply map_nth_seq. }
+    destruct v as [c k m|c m|ws m|d]; cbn [vsel vmap view_wf] in *.
+    - destruct Hw as [Hn _]. rewrite (Hp m Hn). reflexivity.
+    - destruct Hw as [Hn _]. rewrite (Hp m Hn). reflexivity.
+    - destruct Hw as [Hn _]. rewrite (Hp m Hn). reflexivity.
+    - destruct Hw as [_ Hw]. f_equal. rewrite <- (map_id d) at 2. apply map_ext_in. intros [kk [c m]] Hin.
+      rewrite Forall_forall in Hw. destruct (Hw _ Hin) as [Hn _]. cbn [fst snd] in *. rewrite (Hp m Hn). reflexivity.
+  Qed.
+
+  Lemma ysel_id : forall n (yv : list payload), length yv = n -> ysel (seq 0 n) yv = yv.
+  Proof. intros n yv <-. unfold ysel. symmetry. apply map_nth_seq. Qed.
+
+  (* torch_frame.cat(parts, dim=0) of selections of one frame holds the selected rows of the parts in order:
+     it is the frame of the concatenated positions (up to the insertion order of the dicts) *)
+  Lemma cat_rows_selections_proof : forall n vs nm yy ov poss,
+    frame_wf n vs yy ov -> names_ok vs nm -> poss <> [] -> Forall (Forall (fun i => i < n)) poss ->
+    exists fs',
+      tf_cat mnt_cat met_cat (map (fun pos => sel_frame pos vs nm yy ov) poss) 0
+      = Some (MkTF fs' nm (option_map (ysel (concat poss)) yy)
+                   (match vs with [] => Some (length (concat poss)) | _ => None end))
+      /\ NoDup (map fst fs')
+      /\ (forall s x, In (s, x) fs' <-> exists v, In (s, v) vs /\ x = feat_of_view (vsel (concat poss) v)).
+  Proof.
+    intros n vs nm yy ov poss Hwf Hnames Hne Hp.
+    pose proof Hnames as [Hndv [Hndn [Hlen [Hsub Hcols]]]]. pose proof Hwf as [Hv [Hy Ho]].
+    rewrite Forall_forall in Hv.
+    set (parts := map (fun pos => sel_frame pos vs nm yy ov) poss).
+    set (h := fun s => match alookup stype_eqb s vs with
+                       | Some v => feat_of_view (vsel (concat poss) v) | None => FDense [] 0 0 end).
+    set (fs' := map (fun sl : stype * list feat => (fst sl, h (fst sl))) (group_feats parts)).
+    assert (Hgroup : forall s l, In (s, l) (group_feats parts) ->
+              exists v, In (s, v) vs /\ l = map (fun pos => feat_of_view (vsel pos v)) poss).
+    { intros s l Hin. unfold parts in Hin. rewrite group_feats_flat, flat_feats_sel in Hin.
+      apply group_In in Hin. destruct Hin as [-> Hk]. apply parts_flat_has in Hk. destruct Hk as [_ Hk].
+      apply in_map_iff in Hk. destruct Hk as [[s2 v] [<- Hin]]. exists v. split; [exact Hin|].
+      apply parts_flat_vals; assumption. }
+    assert (Hhelper : cat_helper mnt_cat met_cat parts 0 = Some fs').
+    { unfold cat_helper, fs'. apply mapM_all_some. intros [s l] Hin. cbn [fst snd].
+      destruct (Hgroup s l Hin) as [v [Hinv ->]].
+      rewrite (cat_data_rows n v poss); try assumption.
+      - cbn [option_map]. unfold h. rewrite (In_alookup stype_eqb stype_eqb_spec s v vs Hndv Hinv). reflexivity.
+      - apply (Hv (s, v)). exact Hinv.
+      - apply (Hcols s v Hinv). }
+    assert (Hnd' : NoDup (map fst fs')).
+    { unfold fs'. rewrite map_map. cbn [fst]. rewrite (map_ext _ fst (fun _ => eq_refl)).
+      unfold parts. rewrite group_feats_flat. apply fold_gstep_nodup. constructor. }
+    assert (Hchar : forall s x, In (s, x) fs' <-> exists v, In (s, v) vs /\ x = feat_of_view (vsel (concat poss) v)).
+    { intros s x. unfold fs'. split.
+      - intros Hin. apply in_map_iff in Hin. destruct Hin as [[s2 l] [E Hin]]. cbn [fst] in E. injection E as <- <-.
+        destruct (Hgroup s2 l Hin) as [v [Hinv _]]. exists v. split; [exact Hinv|]. unfold h.
+        rewrite (In_alookup stype_eqb stype_eqb_spec s2 v vs Hndv Hinv). reflexivity.
+      - intros [v [Hinv ->]]. apply in_map_iff.
+        exists (s, vals_of stype_eqb s (parts_flat vs vsel poss)). cbn [fst]. split.
+        + unfold h. rewrite (In_alookup stype_eqb stype_eqb_spec s v vs Hndv Hinv). reflexivity.
+        + unfold parts. rewrite group_feats_flat, flat_feats_sel. apply group_has. apply parts_flat_has.
+          split; [exact Hne|]. apply in_map_iff. exists (s, v). auto. }
+    exists fs'. split; [|split; assumption].
+    (* unfold torch_frame.cat *)
+    assert (Hex : exists p0 prest, poss = p0 :: prest) by (destruct poss; [congruence|eauto]).
+    destruct Hex as [p0 [prest Eposs]].
+    assert (Eparts : parts = sel_frame p0 vs nm yy ov :: map (fun pos => sel_frame pos vs nm yy ov) prest)
+      by (unfold parts; rewrite Eposs; reflexivity).
+    fold parts. rewrite Eparts. change (tf_cat mnt_cat met_cat (?t :: ?r) 0) with (cat_row mnt_cat met_cat (t :: r)).
+    unfold cat_row. rewrite <- Eparts.
+    assert (Enames : forallb (fun t => names_eqb (names t) (names (sel_frame p0 vs nm yy ov)))
+                             (map (fun pos => sel_frame pos vs nm yy ov) prest) = true).
+    { apply forallb_forall. intros t Ht. apply in_map_iff in Ht. destruct Ht as [pos [<- _]].
+      cbn [sel_frame frame_of names]. apply (dict_eqb_refl stype_eqb stype_eqb_spec); [|exact Hndn].
+      intros l. apply list_eqb_refl. intros x _. apply String.eqb_refl. }
+    rewrite Enames. cbn [negb].
+    assert (Ey : match y (sel_frame p0 vs nm yy ov) with
+                 | Some _ => option_map (fun ys => Some (concat ys)) (mapM y parts)
+                 | None => if forallb (fun t => match y t with None => true | Some _ => false end) parts
+                           then Some None else None
+                 end = Some (option_map (ysel (concat poss)) yy)).
+    { cbn [sel_frame frame_of y]. destruct yy as [yv|]; cbn [option_map].
+      - unfold parts. rewrite mapM_map. erewrite (mapM_all_some _ (fun pos => ysel pos yv)) by (intros; reflexivity).
+        cbn [option_map]. rewrite ysel_concat. reflexivity.
+      - assert (E : forallb (fun t => match y t with None => true | Some _ => false end) parts = true).
+        { apply forallb_forall. intros t Ht. unfold parts in Ht. apply in_map_iff in Ht. destruct Ht as [pos [<- _]]. reflexivity. }
+        rewrite E. reflexivity. }
+    rewrite Ey. cbn [obind]. rewrite Hhelper. cbn [obind].
+    (* explicit row count when there is no feature *)
+    assert (Eov : match fs' with
+                  | [] => option_map (fun ls => Some (sum ls)) (mapM tf_num_rows parts)
+                  | _ :: _ => Some None
+                  end = Some (match vs with [] => Some (length (concat poss)) | _ :: _ => None end)).
+    { destruct vs as [|sv vs'] eqn:Evs.
+      - assert (Efs : fs' = []).
+        { destruct fs' as [|[s x] r]; [reflexivity|]. destruct (proj1 (Hchar s x) (or_introl eq_refl)) as [v [[] _]]. }
+        rewrite Efs. unfold parts. rewrite mapM_map.
+        erewrite (mapM_all_some _ (fun pos => length pos)).
+        + cbn [option_map]. rewrite sum_map_length_concat'. reflexivity.
+        + intros pos Hpos. unfold sel_frame. apply num_rows_frame_of. apply (frame_wf_sel n); [exact Hwf|].
+          rewrite Forall_forall in Hp. apply Hp. exact Hpos.
+      - destruct fs' as [|sx r] eqn:Efs; [|reflexivity]. exfalso.
+        destruct sv as [s v]. apply (proj2 (Hchar s (feat_of_view (vsel (concat poss) v)))).
+        exists v. split; [left; reflexivity|reflexivity]. }
+    rewrite Eov. cbn [obind sel_frame frame_of names].
+    (* the constructor validates *)
+    unfold tf_mk.
+    assert (Hpc : Forall (fun i => i < n) (concat poss)).
+    { apply Forall_concat. exact Hp. }
+    set (ov' := match vs with [] => Some (length (concat poss)) | _ :: _ => None end).
+    assert (Hn' : tf_num_rows (MkTF fs' nm (option_map (ysel (concat poss)) yy) ov') = Some (length (concat poss))).
+    { unfold tf_num_rows. cbn [num_rows_override feats]. unfold ov'. destruct vs as [|sv vs'] eqn:Evs; [reflexivity|].
+      destruct fs' as [|[s x] r] eqn:Efs.
+      - exfalso. destruct sv as [s v]. apply (proj2 (Hchar s (feat_of_view (vsel (concat poss) v)))).
+        exists v. split; [left; reflexivity|reflexivity].
+      - cbn [snd]. destruct (proj1 (Hchar s x) (or_introl eq_refl)) as [v [Hinv ->]].
+        apply feat_len_view. apply (view_wf_vsel n); [apply (Hv (s, v)); exact Hinv|exact Hpc]. }
+    rewrite (validate_ok (length (concat poss))); [reflexivity| | | |exact Hn'| |].
+    - (* lengths *)
+      apply Nat.le_antisymm.
+      + rewrite Hlen, <- (map_length fst fs'), <- (map_length fst vs). apply NoDup_incl_length; [exact Hnd'|].
+        intros s Hs. apply in_map_iff in Hs. destruct Hs as [[s2 x] [<- Hin]]. destruct (proj1 (Hchar s2 x) Hin) as [v [Hinv _]].
+        apply in_map_iff. exists (s2, v). auto.
+      + rewrite Hlen, <- (map_length fst fs'), <- (map_length fst vs). apply NoDup_incl_length; [exact Hndv|].
+        intros s Hs. apply in_map_iff in Hs. destruct Hs as [[s2 v] [<- Hin]].
+        apply in_map_iff. exists (s2, feat_of_view (vsel (concat poss) v)). split; [reflexivity|].
+        apply Hchar. exists v. auto.
+    - intros s Hs. apply in_map_iff in Hs. destruct Hs as [[s2 x] [<- Hin]]. destruct (proj1 (Hchar s2 x) Hin) as [v [Hinv _]].
+      destruct (Hcols s2 v Hinv) as [_ [cn [E _]]]. apply (alookup_In stype_eqb stype_eqb_spec) in E.
+      apply in_map_iff. exists (s2, cn). auto.
+    - intros s Hs. apply Hsub in Hs. apply in_map_iff in Hs. destruct Hs as [[s2 v] [<- Hin]].
+      apply in_map_iff. exists (s2, feat_of_view (vsel (concat poss) v)). split; [reflexivity|].
+      apply Hchar. exists v. auto.
+    - intros s x Hin. destruct (proj1 (Hchar s x) Hin) as [v [Hinv ->]].
+      destruct (Hcols s v Hinv) as [Hd [cn [E [Hl Hne']]]]. exists cn. split; [exact E|]. split; [exact Hne'|].
+      assert (Hnc : vncols (vsel (concat poss) v) = vncols v).
+      { destruct v as [c k m|c m|ws m|d]; cbn [vsel vmap vncols]; try reflexivity. destruct d; reflexivity. }
+      rewrite Hl, <- Hnc. apply feat_shapes_view.
+      + apply (view_wf_vsel n); [apply (Hv (s, v)); exact Hinv|exact Hpc].
+      + destruct v as [c k m|c m|ws m|d]; cbn [vsel vmap vdict_ok vncols] in *; try exact I.
+        destruct Hd as [Hd1 Hd2]. split.
+        * rewrite map_map. cbn [fst]. rewrite (map_ext _ fst (fun _ => eq_refl)). exact Hd1.
+        * apply Forall_map. cbn [fst snd]. destruct d as [|kcm0 d']; [constructor|]. cbn [map fst snd]. exact Hd2.
+    - destruct yy as [yv|]; cbn [option_map]; [|exact I]. unfold ysel. apply map_length.
+  Qed.
+End CatRows.
+
+Section Roundtrip.
+  Variable close : Z -> Z -> bool.
+  Hypothesis close_refl : forall z, close z z = true.
+
+  Lemma y_close_refl : forall v : list payload,
+    Forall (fun p => p <> None) v -> Forall2 (fun q p => pclose close false q p = true) v v.
+  Proof.
+    intros v H. induction H as [|p v Hp Hv IH]; constructor; [|exact IH].
+    destruct p as [z|]; [simpl; apply close_refl|congruence].
+  Qed.
+
+  Lemma names_equiv_refl : forall nm, NoDup (map fst nm) -> names_equiv nm nm.
+  Proof.
+    intros nm H. split; [reflexivity|]. intros s cn Hin. apply (In_alookup stype_eqb stype_eqb_spec); assumption.
+  Qed.
+
+  Lemma tf_equiv_same : forall a b n,
+    tf_num_rows a = Some n -> tf_num_rows b = Some n ->
+    y a = y b -> match y a with Some v => Forall (fun p => p <> None) v | None => True end ->
+    names_equiv (names a) (names b) -> NoDup (map fst (feats b)) ->
+    (forall s x, In (s, x) (feats a) -> In (s, x) (feats b) /\ feat_eq close x x = true) ->
+    tf_equiv close a b.
+  Proof.
+    intros a b n Ha Hb Hy Hnan Hn Hndb Hf. split; [exists n; auto|]. split; [|split].
+    - unfold y_equiv. rewrite <- Hy. destruct (y a) as [v|]; [|exact I]. split; [reflexivity|].
+      apply y_close_refl. exact Hnan.
+    - exact Hn.
+    - apply Forall_forall. intros [s x] Hin. cbn [fst snd]. destruct (Hf s x Hin) as [Hin' He].
+      exists x. split; [|exact He]. apply (In_alookup stype_eqb stype_eqb_spec); assumption.
+  Qed.
+
+  Lemma feat_eq_view_refl : forall n v, view_wf n v -> vdict_ok v -> feat_eq close (feat_of_view v) (feat_of_view v) = true.
+  Proof.
+    intros n v Hw Hd. apply (feat_eq_views_proof close n n v v Hw Hw). apply view_close_refl; assumption.
+  Qed.
+
+  Variable mnt_cat : list (mnt payload) -> nat -> option (mnt payload).
+  Variable met_cat : list (met payload) -> nat -> option (met payload).
+  Hypothesis H_mnt_cat_rows : forall c (ms : list (cellmat payload)),
+    ms <> [] -> Forall (rect c) ms -> mnt_cat (map (mnt_of_cells c) ms) 0 = Some (mnt_of_cells c (concat ms)).
+  Hypothesis H_met_cat_rows : forall ws (ms : list (cellmat payload)),
+    ms <> [] -> Forall (rect_w ws) ms -> met_cat (map (met_of_cells ws) ms) 0 = Some (met_of_cells ws (concat ms)).
+
+  (* any row partition -- more generally any list of selections whose positions concatenate to 0..n-1 --
+     concatenates back to a frame equal to the original *)
+  Lemma row_partition_roundtrip_proof : forall n vs nm yy ov poss,
+    frame_wf n vs yy ov -> names_ok vs nm -> poss <> [] -> concat poss = seq 0 n ->
+    match yy with Some v => Forall (fun p => p <> None) v | None => True end ->
+    exists F', tf_cat mnt_cat met_cat (map (fun pos => sel_frame pos vs nm yy ov) poss) 0 = Some F'
+               /\ tf_eq close F' (frame_of vs nm yy ov) = Some true
+               /\ tf_eq close (frame_of vs nm yy ov) F' = Some true.
+  Proof.
+    intros n vs nm yy ov poss Hwf Hnames Hne Hcat Hnan.
+    assert (Hp : Forall (Forall (fun i => i < n)) poss).
+    { apply Forall_forall. intros pos Hpos. apply Forall_forall. intros i Hi.
+      assert (Hin : In i (concat poss)) by (apply in_concat; exists pos; auto).
+      rewrite Hcat in Hin. apply in_seq in Hin. lia. }
+    destruct (cat_rows_selections_proof mnt_cat met_cat H_mnt_cat_rows H_met_cat_rows n vs nm yy ov poss Hwf Hnames Hne Hp)
+      as [fs' [Ecat [Hnd' Hchar]]].
+    rewrite Hcat in Ecat, Hchar. rewrite seq_length in Ecat.
+    pose proof Hnames as [Hndv [Hndn [Hlen [Hsub Hcols]]]]. pose proof Hwf as [Hv [Hy Ho]].
+    rewrite Forall_forall in Hv.
+    assert (Ey : option_map (ysel (seq 0 n)) yy = yy).
+    { destruct yy as [yv|]; [|reflexivity]. cbn [option_map]. rewrite (ysel_id n yv Hy). reflexivity. }
+    rewrite Ey in Ecat.
+    set (ov' := match vs with [] => Some n | _ :: _ => None end) in *.
+    set (F' := MkTF fs' nm yy ov') in *.
+    assert (Hchar' : forall s x, In (s, x) fs' <-> exists v, In (s, v) vs /\ x = feat_of_view v).
+    { intros s x. rewrite Hchar. split; intros [v [Hin ->]]; exists v; (split; [exact Hin|]);
+        rewrite (vsel_id n v (Hv (s, v) Hin)); reflexivity. }
+    assert (HnF : tf_num_rows F' = Some n).
+    { unfold tf_num_rows, F', ov'. cbn [num_rows_override feats]. destruct vs as [|sv vs'] eqn:Evs; [reflexivity|].
+      destruct fs' as [|[s x] r] eqn:Efs.
+      - exfalso. destruct sv as [s v]. apply (proj2 (Hchar' s (feat_of_view v))). exists v. split; [left; reflexivity|reflexivity].
+      - cbn [snd]. destruct (proj1 (Hchar' s x) (or_introl eq_refl)) as [v [Hinv ->]].
+        apply feat_len_view. apply (Hv (s, v)). exact Hinv. }
+    exists F'. split; [exact Ecat|]. split; apply tf_eq_iff_proof; apply (tf_equiv_same _ _ n);
+      try exact HnF; try (apply num_rows_frame_of; exact Hwf); try reflexivity; try exact Hnan;
+      try (apply names_equiv_refl; exact Hndn).
+    - cbn [frame_of feats]. rewrite map_map. cbn [fst]. rewrite (map_ext _ fst (fun _ => eq_refl)). exact Hndv.
+    - intros s x Hin. cbn [F' feats] in Hin. destruct (proj1 (Hchar' s x) Hin) as [v [Hinv ->]]. split.
+      + cbn [frame_of feats]. apply in_map_iff. exists (s, v). auto.
+      + apply (feat_eq_view_refl n); [apply (Hv (s, v)); exact Hinv|apply (Hcols s v Hinv)].
+    - exact Hnd'.
+    - intros s x Hin. cbn [frame_of feats] in Hin. apply in_map_iff in Hin. destruct Hin as [[s2 v] [E Hinv]].
+      injection E as <- <-. split.
+      + cbn [F' feats]. apply Hchar'. exists v. auto.
+      + apply (feat_eq_view_refl n); [apply (Hv (s2, v)); exact Hinv|apply (Hcols s2 v Hinv)].
+  Qed.
+End Roundtrip.
+
+(* ------------------------------------------------------------------ *)
+(* rejections of torch_frame.cat *)
+From Coq Require Import Permutation.
+
+Lemma has_dup_false : forall l, has_dup l = false <-> NoDup l.
+Proof.
+  induction l as [|x r IH]; simpl; [split; [constructor|reflexivity]|].
+  rewrite orb_false_iff, IH. split.
+  - intros [H1 H2]. constructor; [|exact H2]. intros Hin. apply (amem_In String.eqb str_eqb_spec) in Hin. congruence.
+  - intros H. inversion H as [|? ? Hni Hnd]; subst. split; [|exact Hnd].
+    apply not_true_is_false. intros Hm. apply (amem_In String.eqb str_eqb_spec) in Hm. contradiction.
+Qed.
+
+Lemma aset_flat_perm : forall {W} k (l ws : list W) (d : list (stype * list W)),
+  alookup stype_eqb k d = Some l ->
+  Permutation (flat_map snd (aset stype_eqb k (l ++ ws) d)) (flat_map snd d ++ ws).
+Proof.
+  intros W k l ws d. induction d as [|[k' v'] r IH]; simpl; [discriminate|].
+  destruct (stype_eqb k k') eqn:E; intros H.
+  - injection H as ->. simpl. rewrite <- !app_assoc. apply Permutation_app_head. apply Permutation_app_comm.
+  - simpl. rewrite <- app_assoc. apply Permutation_app_head. apply IH. exact H.
+Qed.
+
+Lemma group_flat_perm : forall {W} (L : list (stype * list W)) acc,
+  Permutation (flat_map snd (fold_left (gstep stype_eqb) L acc)) (flat_map snd acc ++ flat_map snd L).
+Proof.
+  intros W L. induction L as [|[k ws] r IH]; intros acc; simpl.
+  - rewrite app_nil_r. apply Permutation_refl.
+  - rewrite IH. unfold gstep, dict_extend. cbn [fst snd].
+    destruct (alookup stype_eqb k acc) as [l|] eqn:E.
+    + rewrite (aset_flat_perm k l ws acc E). rewrite <- app_assoc. apply Permutation_refl.
+    + rewrite flat_map_app. simpl. rewrite app_nil_r, <- app_assoc. apply Permutation_refl.
+Qed.
+
+Section Rejections.
+  Variable mnt_cat : list (mnt payload) -> nat -> option (mnt payload).
+  Variable met_cat : list (met payload) -> nat -> option (met payload).
+  Notation tfcat := (tf_cat mnt_cat met_cat).
+
+  Lemma cat_empty_rejected_proof : forall dim, tfcat [] dim = None.
+  Proof. reflexivity. Qed.
+
+  Lemma cat_bad_dim_rejected_proof : forall tfs dim, dim <> 0%Z -> dim <> 1%Z -> tfcat tfs dim = None.
+  Proof.
+    intros tfs dim H0 H1. unfold tf_cat. destruct tfs; [reflexivity|].
+    destruct (dim =? 0)%Z eqn:E0; [apply Z.eqb_eq in E0; contradiction|].
+    destruct (dim =? 1)%Z eqn:E1; [apply Z.eqb_eq in E1; contradiction|]. reflexivity.
+  Qed.
+
+  (* mismatched column sets *)
+  Lemma cat_rows_names_mismatch_proof : forall t0 rest t,
+    In t rest -> names_eqb (names t) (names t0) = false -> tfcat (t0 :: rest) 0 = None.
+  Proof.
+    intros t0 rest t Hin Hne. unfold tf_cat. cbn [Z.eqb]. unfold cat_row.
+    assert (E : forallb (fun t1 => names_eqb (names t1) (names t0)) rest = false).
+    { apply not_true_is_false. intros H. rewrite forallb_forall in H. rewrite (H t Hin) in Hne. discriminate. }
+    rewrite E. reflexivity.
+  Qed.
+
+  (* conflicting targets along rows: some parts with, some without *)
+  Lemma cat_rows_mixed_targets_proof : forall tfs t1 t2,
+    In t1 tfs -> In t2 tfs -> y t1 = None -> y t2 <> None -> tfcat tfs 0 = None.
+  Proof.
+    intros tfs t1 t2 H1 H2 Hy1 Hy2. unfold tf_cat. destruct tfs as [|t0 rest]; [reflexivity|]. cbn [Z.eqb]. unfold cat_row.
+    destruct (negb (forallb (fun t => names_eqb (names t) (names t0)) rest)); [reflexivity|].
+    destruct (y t0) as [v0|] eqn:E0.
+    - assert (E : mapM y (t0 :: rest) = None).
+      { clear -H1 Hy1. induction (t0 :: rest) as [|a r IH]; [contradiction|]. simpl. destruct H1 as [->|H1].
+        - rewrite Hy1. reflexivity.
+        - rewrite (IH H1). destruct (y a); reflexivity. }
+      rewrite E. reflexivity.
+    - assert (E : forallb (fun t => match y t with None => true | Some _ => false end) (t0 :: rest) = false).
+      { apply not_true_is_false. intros H. rewrite forallb_forall in H. specialize (H t2 H2). destruct (y t2); [discriminate|congruence]. }
+      rewrite E. reflexivity.
+  Qed.
+
+  (* conflicting targets along columns: more than one part with a target *)
+  Lemma cat_cols_two_targets_proof : forall tfs,
+    2 <= length (flat_map (fun t => match y t with Some v => [v] | None => [] end) tfs) -> tfcat tfs 1 = None.
+  Proof.
+    intros tfs H. unfold tf_cat. destruct tfs as [|t0 rest]; [reflexivity|]. cbn [Z.eqb]. unfold cat_col.
+    destruct (flat_map (fun t => match y t with Some v => [v] | None => [] end) (t0 :: rest)) as [|a [|b r]];
+      simpl in H; try lia. reflexivity.
+  Qed.
+
+  (* duplicated column names, within one stype or across stypes *)
+  Lemma cat_cols_duplicate_names_proof : forall tfs,
+    ~ NoDup (flat_map snd (flat_map names tfs)) -> tfcat tfs 1 = None.
+  Proof.
+    intros tfs H. unfold tf_cat. destruct tfs as [|t0 rest]; [reflexivity|]. cbn [Z.eqb]. unfold cat_col.
+    destruct (match flat_map (fun t => match y t with Some v => [v] | None => [] end) (t0 :: rest) with
+              | [] => Some None | [v] => Some (Some v) | _ :: _ :: _ => None end); cbn [obind]; [|reflexivity].
+    destruct (existsb (fun sc => has_dup (snd sc)) (group_names (t0 :: rest))); [reflexivity|].
+    assert (E : has_dup (flat_map snd (group_names (t0 :: rest))) = true).
+    { apply not_false_is_true. intros Hf. apply has_dup_false in Hf. apply H.
+      rewrite group_names_flat in Hf. eapply Permutation_NoDup; [|exact Hf].
+      rewrite group_flat_perm. simpl. apply Permutation_refl. }
+    rewrite E. reflexivity.
+  Qed.
+
+  (* parts with different numbers of rows *)
+  Lemma cat_cols_row_counts_proof : forall tfs t1 t2 a b,
+    In t1 tfs -> In t2 tfs -> tf_num_rows t1 = Some a -> tf_num_rows t2 = Some b -> a <> b -> tfcat tfs 1 = None.
+  Proof.
+    intros tfs t1 t2 a b H1 H2 Ha Hb Hab. unfold tf_cat. destruct tfs as [|t0 rest]; [reflexivity|]. cbn [Z.eqb]. unfold cat_col.
+    destruct (match flat_map (fun t => match y t with Some v => [v] | None => [] end) (t0 :: rest) with
+              | [] => Some None | [v] => Some (Some v) | _ :: _ :: _ => None end); cbn [obind]; [|reflexivity].
+    destruct (existsb (fun sc => has_dup (snd sc)) (group_names (t0 :: rest))); [reflexivity|].
+    destruct (has_dup (flat_map snd (group_names (t0 :: rest)))); [reflexivity|].
+    destruct (mapM tf_num_rows (t0 :: rest)) as [ls|] eqn:E; cbn [obind]; [|reflexivity].
+    destruct ls as [|n0 ls']; [reflexivity|].
+    assert (Hall : forall t k, In t (t0 :: rest) -> tf_num_rows t = Some k -> In k (n0 :: ls')).
+    { clear -E. revert E. generalize (n0 :: ls') as ls. induction (t0 :: rest) as [|x r IH]; intros ls E t k Hin Hk; [contradiction|].
+      simpl in E. destruct (tf_num_rows x) as [kx|] eqn:Ex; [|discriminate].
+      destruct (mapM tf_num_rows r) as [lr|] eqn:Er; [|discriminate]. injection E as <-.
+      destruct Hin as [->|Hin]; [left; congruence|right; apply (IH lr eq_refl t k Hin Hk)]. }
+    assert (Ef : forallb (Nat.eqb n0) (n0 :: ls') = false).
+    { apply not_true_is_false. intros H. rewrite forallb_forall in H.
+      pose proof (H a (Hall t1 a H1 Ha)) as Ea. pose proof (H b (Hall t2 b H2 Hb)) as Eb.
+      apply Nat.eqb_eq in Ea, Eb. congruence. }
+    rewrite Ef. reflexivity.
+  Qed.
+End Rejections.
+
+(* ------------------------------------------------------------------ *)
+(* get_col_feat *)
+Lemma fold_flat_gen : forall {Acc T U} (f : Acc -> U -> Acc) (g : T -> list U) (ts : list T) (acc : Acc),
+  fold_left (fun a t => fold_left f (g t) a) ts acc = fold_left f (flat_map g ts) acc.
+Proof.
+  intros Acc T U f g ts. induction ts as [|t r IH]; intros acc; simpl; [reflexivity|].
+  rewrite fold_left_app. apply IH.
+Qed.
+
+Section LastWins.
+  Context {V : Type}.
+  Definition aset_step (acc : list (string * V)) (p : string * V) := aset String.eqb (fst p) (snd p) acc.
+
+  Lemma aset_fold_absent : forall (L : list (string * V)) acc k,
+    ~ In k (map fst L) -> alookup String.eqb k (fold_left aset_step L acc) = alookup String.eqb k acc.
+  Proof.
+    induction L as [|[k' v'] r IH]; intros acc k H; simpl; [reflexivity|].
+    rewrite IH by (intros Hin; apply H; right; exact Hin).
+    unfold aset_step. cbn [fst snd]. apply (alookup_aset_other String.eqb str_eqb_spec).
+    intros ->. apply H. left; reflexivity.
+  Qed.
+
+  Lemma aset_fold_lookup : forall (L : list (string * V)) acc k v,
+    NoDup (map fst L) -> In (k, v) L -> alookup String.eqb k (fold_left aset_step L acc) = Some v.
+  Proof.
+    induction L as [|[k' v'] r IH]; intros acc k v Hnd Hin; [contradiction|]. simpl.
+    inversion Hnd as [|? ? Hni Hnd']; subst. destruct Hin as [E|Hin].
+    - injection E as -> ->. rewrite aset_fold_absent by exact Hni. unfold aset_step. cbn [fst snd].
+      apply (alookup_aset_same String.eqb str_eqb_spec).
+    - apply IH; assumption.
+  Qed.
+End LastWins.
+
+Definition flat_cols (nm : list (stype * list string)) : list (string * (stype * nat)) :=
+  flat_map (fun sc => map (fun ic : nat * string => (snd ic, (fst sc, fst ic))) (combine (seq 0 (length (snd sc))) (snd sc))) nm.
+
+Lemma col_to_stype_idx_flat : forall nm, col_to_stype_idx nm = fold_left aset_step (flat_cols nm) [].
+Proof.
+  intros nm. unfold col_to_stype_idx, flat_cols.
+  rewrite <- (fold_flat_gen aset_step
+                (fun sc : stype * list string =>
+                   map (fun ic : nat * string => (snd ic, (fst sc, fst ic))) (combine (seq 0 (length (snd sc))) (snd sc)))).
+  apply fold_left_ext. intros a sc. rewrite fold_left_map. reflexivity.
+Qed.
+
+Lemma map_snd_combine_seq : forall {X} (l : list X) a, map snd (combine (seq a (length l)) l) = l.
+Proof. intros X l. induction l as [|x r IH]; intros a; simpl; [reflexivity|]. rewrite IH. reflexivity. Qed.
+
+Lemma flat_cols_keys : forall nm, map fst (flat_cols nm) = flat_map snd nm.
+Proof.
+  intros nm. unfold flat_cols. induction nm as [|[s cn] r IH]; simpl; [reflexivity|].
+  rewrite map_app, IH, map_map. cbn [fst snd]. f_equal.
+  rewrite <- (map_snd_combine_seq cn 0) at 3. reflexivity.
+Qed.
+
+Lemma nth_error_combine_seq : forall {X} (l : list X) a j x,
+  nth_error l j = Some x -> In (a + j, x) (combine (seq a (length l)) l).
+Proof.
+  intros X l. induction l as [|y r IH]; intros a j x H; [destruct j; discriminate|].
+  destruct j as [|j]; simpl in *.
+  - injection H as ->. left. f_equal. lia.
+  - right. replace (a + S j) with (S a + j) by lia. apply IH. exact H.
+Qed.
+
+Lemma flat_cols_In : forall nm s cn j name,
+  In (s, cn) nm -> nth_error cn j = Some name -> In (name, (s, j)) (flat_cols nm).
+Proof.
+  intros nm s cn j name Hin Hn. unfold flat_cols. apply in_flat_map. exists (s, cn). split; [exact Hin|].
+  cbn [fst snd]. apply in_map_iff. exists (j, name). split; [reflexivity|].
+  apply (nth_error_combine_seq cn 0 j name Hn).
+Qed.
+
+Lemma py_positions_all : forall n, py_positions n (ISlice None None None) = Some (seq 0 n).
+Proof.
+  intros n. cbn [py_positions]. cbn [Z.leb Z.compare]. unfold slice_indices, clamp_bound.
+  change (Z.to_nat 1) with 1. rewrite range_up_1. rewrite Nat.sub_0_r. reflexivity.
+Qed.
+
+Lemma py_positions_int : forall n j, j < n -> py_positions n (IInt (Z.of_nat j)) = Some [j].
+Proof.
+  intros n j H. cbn [py_positions]. unfold norm_index.
+  assert (E1 : (Z.of_nat j <? 0)%Z = false) by (apply Z.ltb_ge; lia). rewrite E1.
+  assert (E2 : (Z.of_nat n <=? Z.of_nat j)%Z = false) by (apply Z.leb_gt; lia). cbv iota. rewrite E1, E2. cbn [orb option_map].
+  rewrite Nat2Z.id. reflexivity.
+Qed.
+
+Lemma pick_rows_all : forall {A} (m : cellmat A), pick_rows (seq 0 (length m)) m = m.
+Proof. intros A m. unfold pick_rows. symmetry. apply map_nth_seq. Qed.
+
+Lemma mnt_col_spec : forall c (m : cellmat payload) j,
+  rect c m -> j < c -> mnt_col (mnt_of_cells c m) j = Some (mnt_of_cells 1 (col_chunk j (j + 1) m)).
+Proof.
+  intros c m j Hr Hj. unfold mnt_col, getitem_pair.
+  rewrite (mnt_select_refines_proof payload c m (ISlice None None None) 0 Hr) by lia. cbn [Nat.eqb].
+  rewrite py_positions_all. cbn [obind pick Nat.eqb]. rewrite pick_rows_all.
+  rewrite (mnt_select_refines_proof payload c m (IInt (Z.of_nat j)) 1 Hr) by lia. cbn [Nat.eqb].
+  rewrite (py_positions_int c j Hj). cbn [obind pick Nat.eqb length]. f_equal. f_equal.
+  unfold pick_cols, col_chunk. apply map_ext_in. intros r Hin. cbn [map].
+  rewrite Nat.add_1_r. symmetry. apply tslice_one. unfold rect in Hr. rewrite Forall_forall in Hr. rewrite (Hr r Hin). exact Hj.
+Qed.
+
+Lemma met_col_spec : forall ws (m : cellmat payload) j,
+  rect_w ws m -> j < length ws ->
+  met_col (met_of_cells ws m) j = Some (met_of_cells (tslice ws j (j + 1)) (col_chunk j (j + 1) m)).
+Proof.
+  intros ws m j Hr Hj. unfold met_col, getitem_pair.
+  rewrite (met_select_refines_proof payload ws m (ISlice None None None) 0 Hr) by lia. cbn [Nat.eqb].
+  rewrite py_positions_all. cbn [obind pick pick_ws Nat.eqb]. rewrite pick_rows_all.
+  rewrite (met_select_refines_proof payload ws m (IInt (Z.of_nat j)) 1 Hr) by lia. cbn [Nat.eqb].
+  rewrite (py_positions_int (length ws) j Hj). cbn [obind pick pick_ws Nat.eqb map]. f_equal. f_equal.
+  - rewrite Nat.add_1_r. symmetry. apply tslice_one. exact Hj.
+  - unfold pick_cols, col_chunk. apply map_ext_in. intros r Hin. cbn [map].
+    rewrite Nat.add_1_r. symmetry. apply tslice_one. unfold rect_w in Hr. rewrite Forall_forall in Hr.
+    rewrite <- (map_length (@length payload) r), (Hr r Hin). exact Hj.
+Qed.
+
+Lemma dense_col_spec : forall c k (m : cellmat payload) j,
+  dense_wf c k m -> j < c ->
+  map (fun r => tslice r (j * k) ((j + 1) * k)) (map (@concat payload) m) = map (@concat payload) (col_chunk j (j + 1) m).
+Proof.
+  intros c k m j Hw Hj. unfold col_chunk. rewrite !map_map. apply map_ext_in. intros r Hin.
+  unfold dense_wf in Hw. rewrite Forall_forall in Hw. destruct (Hw r Hin) as [Hc Hk].
+  apply (rect_tslice k r j (j + 1) Hk); lia.
+Qed.
+
+(* the column extraction of get_col_feat, per storage kind *)
+Lemma col_of_view : forall n v j,
+  view_wf n v -> vdict_ok v -> j < vncols v ->
+  match feat_of_view v with
+  | FDict d => option_map FDict (mapM (fun kv => option_map (pair (fst kv)) (mnt_col (snd kv) j)) d)
+  | FNested t => option_map FNested (mnt_col t j)
+  | FEmb t => option_map FEmb (met_col t j)
+  | FDense rows c k =>
+      if j <? c then Some (FDense (map (fun r => tslice r (j * k) ((j + 1) * k)) rows) 1 k) else None
+  end = Some (feat_of_view (vcol j v)).
+Proof.
+  intros n v j Hw Hd Hj. destruct v as [c k m|c m|ws m|d]; cbn [feat_of_view vcol vcols vncols view_wf vdict_ok] in *.
+  - destruct Hw as [_ Hw]. assert (E : (j <? c) = true) by (apply Nat.ltb_lt; exact Hj). rewrite E.
+    rewrite (dense_col_spec c k m j Hw Hj). replace (Nat.min (j + 1) c - j) with 1 by lia. reflexivity.
+  - destruct Hw as [_ Hw]. rewrite (mnt_col_spec c m j Hw Hj). cbn [option_map].
+    replace (Nat.min (j + 1) c - j) with 1 by lia. reflexivity.
+  - destruct Hw as [_ Hw]. rewrite (met_col_spec ws m j Hw Hj). reflexivity.
+  - destruct Hw as [Hne Hw]. destruct Hd as [_ Hc]. rewrite mapM_map.
+    erewrite (mapM_all_some _ (fun kcm : string * (nat * cellmat payload) =>
+                (fst kcm, mnt_of_cells 1 (col_chunk j (j + 1) (snd (snd kcm)))))).
+    + cbn [option_map]. rewrite !map_map. cbn [fst snd]. f_equal. f_equal. apply map_ext_in. intros [kk [c m]] Hin.
+      cbn [fst snd]. rewrite Forall_forall in Hc. pose proof (Hc _ Hin) as E. cbn [fst snd] in E.
+      replace (Nat.min (j + 1) c - j) with 1 by lia. reflexivity.
+    + intros [kk [c m]] Hin. cbn [fst snd]. rewrite Forall_forall in Hw, Hc.
+      destruct (Hw _ Hin) as [_ Hr]. pose proof (Hc _ Hin) as E. cbn [fst snd] in *.
+      rewrite (mnt_col_spec c m j Hr) by lia. reflexivity.
+Qed.
+
+(* looking a column up by name returns that column's data, for every storage kind *)
+Lemma get_col_feat_spec_proof : forall n vs nm yy ov s v cn j name,
+  frame_wf n vs yy ov -> names_ok vs nm -> NoDup (flat_map snd nm) ->
+  In (s, v) vs -> alookup stype_eqb s nm = Some cn -> nth_error cn j = Some name ->
+  tf_get_col_feat (frame_of vs nm yy ov) name = Some (feat_of_view (vcol j v), s).
+Proof.
+  intros n vs nm yy ov s v cn j name Hwf Hnames Hnd Hin Hcn Hj.
+  pose proof Hnames as [Hndv [Hndn [Hlen [Hsub Hcols]]]]. pose proof Hwf as [Hv _]. rewrite Forall_forall in Hv.
+  unfold tf_get_col_feat. cbn [frame_of names feats].
+  rewrite col_to_stype_idx_flat.
+  rewrite (aset_fold_lookup (flat_cols nm) [] name (s, j)).
+  - cbn [obind fst snd].
+    pose proof (alookup_map_snd_st feat_of_view s vs) as Hm. cbn beta in Hm. rewrite Hm. clear Hm.
+    rewrite (In_alookup stype_eqb stype_eqb_spec s v vs Hndv Hin). cbn [option_map obind].
+    destruct (Hcols s v Hin) as [Hd [cn' [E [Hl _]]]]. rewrite Hcn in E. injection E as <-.
+    assert (Hjc : j < vncols v).
+    { rewrite <- Hl. apply nth_error_Some. congruence. }
+    pose proof (col_of_view n v j (Hv (s, v) Hin) Hd Hjc) as Hcol.
+    destruct (feat_of_view v); rewrite Hcol; reflexivity.
+  - rewrite flat_cols_keys. exact Hnd.
+  - apply (flat_cols_In nm s cn j name); [|exact Hj]. apply (alookup_In stype_eqb stype_eqb_spec). exact Hcn.
+Qed.
+
+Lemma get_col_feat_missing_proof : forall f name,
+  ~ In name (flat_map snd (names f)) -> tf_get_col_feat f name = None.
+Proof.
+  intros f name H. unfold tf_get_col_feat. rewrite col_to_stype_idx_flat.
+  rewrite aset_fold_absent by (rewrite flat_cols_keys; exact H). reflexivity.
+Qed.
+
+(* ------------------------------------------------------------------ *)
+(* torch_frame.cat along columns *)
+Inductive chain : nat -> list (nat * nat) -> nat -> Prop :=
+| chain_nil : forall a, chain a [] a
+| chain_cons : forall a b r e, a < b -> chain b r e -> chain a ((a, b) :: r) e.
+
+Lemma chain_le : forall a ivs e, chain a ivs e -> a <= e.
+Proof. intros a ivs e H. induction H; lia. Qed.
+
+Lemma chain_tslices : forall {X} (l : list X) a ivs e,
+  chain a ivs e -> concat (map (fun ab => tslice l (fst ab) (snd ab)) ivs) = tslice l a e.
+Proof.
+  intros X l a ivs e H. induction H as [a|a b r e Hab Hr IH]; simpl.
+  - unfold tslice. rewrite Nat.sub_diag. reflexivity.
+  - rewrite IH. apply tslice_app; [lia|apply (chain_le _ _ _ Hr)].
+Qed.
+
+Lemma chain_sum : forall a ivs e c,
+  chain a ivs e -> e <= c -> sum (map (fun ab => Nat.min (snd ab) c - fst ab) ivs) = e - a.
+Proof.
+  intros a ivs e c H. induction H as [a|a b r e Hab Hr IH]; intros Hc; simpl; [lia|].
+  rewrite IH by exact Hc. pose proof (chain_le _ _ _ Hr). lia.
+Qed.
+
+Lemma chain_bounds : forall a ivs e, chain a ivs e -> Forall (fun ab => a <= fst ab /\ fst ab < snd ab /\ snd ab <= e) ivs.
+Proof.
+  intros a ivs e H. induction H as [a|a b r e Hab Hr IH]; constructor.
+  - cbn [fst snd]. pose proof (chain_le _ _ _ Hr). lia.
+  - eapply Forall_impl; [|exact IH]. cbn beta. intros [x z]. cbn [fst snd]. lia.
+Qed.
+
+Definition cut_ivs (cut : nat -> nat) (j0 k : nat) : list (nat * nat) :=
+  flat_map (fun j => if cut j <? cut (S j) then [(cut j, cut (S j))] else []) (seq j0 k).
+
+Lemma chain_of_cuts : forall cut k j0, (forall j, cut j <= cut (S j)) -> chain (cut j0) (cut_ivs cut j0 k) (cut (j0 + k)).
+Proof.
+  intros cut k. induction k as [|k IH]; intros j0 Hm; unfold cut_ivs; cbn [seq flat_map].
+  - rewrite Nat.add_0_r. constructor.
+  - fold (cut_ivs cut (S j0) k). replace (j0 + S k) with (S j0 + k) by lia.
+    destruct (cut j0 <? cut (S j0)) eqn:E.
+    + apply Nat.ltb_lt in E. cbn [app]. constructor; [exact E|apply IH; exact Hm].
+    + apply Nat.ltb_ge in E. pose proof (Hm j0). replace (cut j0) with (cut (S j0)) by lia. cbn [app]. apply IH. exact Hm.
+Qed.
+
+Lemma flat_map_if_map : forall {X} (g : nat * nat -> X) (cut : nat -> nat) l,
+  flat_map (fun j => if cut j <? cut (S j) then [g (cut j, cut (S j))] else []) l
+  = map g (flat_map (fun j => if cut j <? cut (S j) then [(cut j, cut (S j))] else []) l).
+Proof.
+  intros X g cut l. induction l as [|j r IH]; simpl; [reflexivity|]. rewrite map_app, IH.
+  destruct (cut j <? cut (S j)); reflexivity.
+Qed.
+
+Lemma tslice_nil : forall {X} a b, tslice (@nil X) a b = [].
+Proof. intros X a b. unfold tslice. rewrite skipn_nil. apply firstn_nil. Qed.
+
+Lemma tslice_full : forall {X} (l : list X) c, length l = c -> tslice l 0 c = l.
+Proof. intros X l c <-. apply tslice_all. Qed.
+
+Lemma nth_col_chunk : forall (m : cellmat payload) a b i, nth i (col_chunk a b m) [] = tslice (nth i m []) a b.
+Proof.
+  intros m a b i. unfold col_chunk. rewrite <- (tslice_nil a b) at 1.
+  apply (map_nth (fun r : list (list payload) => tslice r a b)).
+Qed.
+
+(* consecutive column chunks of a matrix whose rows all have c cells reassemble to the matrix *)
+Lemma zip_chunks : forall c n (m : cellmat payload) ivs,
+  rect c m -> length m = n -> chain 0 ivs c ->
+  zip_rows n (map (fun ab => col_chunk (fst ab) (snd ab) m) ivs) = m.
+Proof.
+  intros c n m ivs Hr Hn Hc. unfold zip_rows.
+  etransitivity; [|symmetry; apply (map_nth_seq m [])]. rewrite Hn.
+  apply map_ext_in. intros i Hi. apply in_seq in Hi. rewrite map_map.
+  erewrite map_ext by (intros ab; apply nth_col_chunk).
+  rewrite (chain_tslices (nth i m []) 0 ivs c Hc). apply tslice_full.
+  unfold rect in Hr. rewrite Forall_forall in Hr. apply Hr. apply nth_In. lia.
+Qed.
+
+Lemma col_chunk_full : forall c (m : cellmat payload), rect c m -> col_chunk 0 c m = m.
+Proof.
+  intros c m Hr. unfold col_chunk. rewrite <- (map_id m) at 2. apply map_ext_in. intros r Hin.
+  apply tslice_full. unfold rect in Hr. rewrite Forall_forall in Hr. apply Hr. exact Hin.
+Qed.
+
+Lemma col_chunk_length : forall a b (m : cellmat payload), length (col_chunk a b m) = length m.
+Proof. intros. unfold col_chunk. apply map_length. Qed.
+
+Lemma col_chunk_rect : forall c a b (m : cellmat payload), rect c m -> b <= c -> rect (b - a) (col_chunk a b m).
+Proof.
+  intros c a b m Hr Hb. unfold rect, col_chunk in *. apply Forall_map. eapply Forall_impl; [|exact Hr]. cbn beta.
+  intros r Hl. apply tslice_length. lia.
+Qed.
+
+Lemma rect_w_rect : forall ws (m : cellmat payload), rect_w ws m -> rect (length ws) m.
+Proof.
+  intros ws m H. unfold rect_w, rect in *. eapply Forall_impl; [|exact H]. cbn beta. intros r E.
+  rewrite <- E. symmetry. apply map_length.
+Qed.
+
+Lemma col_chunk_rect_w : forall ws a b (m : cellmat payload), rect_w ws m -> rect_w (tslice ws a b) (col_chunk a b m).
+Proof.
+  intros ws a b m Hr. unfold rect_w, col_chunk in *. apply Forall_map. eapply Forall_impl; [|exact Hr]. cbn beta.
+  intros r E. rewrite <- E. symmetry. apply tslice_map.
+Qed.
+
+Lemma dense_wf_rect : forall c k (m : cellmat payload), dense_wf c k m -> rect c m.
+Proof. intros c k m H. unfold dense_wf, rect in *. eapply Forall_impl; [|exact H]. cbn beta. tauto. Qed.
+
+Lemma vcols_full : forall n v, view_wf n v -> vdict_ok v -> feat_of_view (vcols 0 (vncols v) v) = feat_of_view v.
+Proof.
+  intros n v Hw Hd. destruct v as [c k m|c m|ws m|d]; cbn [vcols vncols feat_of_view view_wf vdict_ok] in *.
+  - destruct Hw as [_ Hw]. rewrite Nat.min_id, Nat.sub_0_r, (col_chunk_full c m (dense_wf_rect c k m Hw)). reflexivity.
+  - destruct Hw as [_ Hw]. rewrite Nat.min_id, Nat.sub_0_r, (col_chunk_full c m Hw). reflexivity.
+  - destruct Hw as [_ Hw]. rewrite tslice_all, (col_chunk_full _ m (rect_w_rect ws m Hw)). reflexivity.
+  - destruct Hw as [_ Hw]. destruct Hd as [_ Hc]. f_equal. rewrite map_map. apply map_ext_in. intros [kk [c m]] Hin.
+    cbn [fst snd]. rewrite Forall_forall in Hw, Hc. destruct (Hw _ Hin) as [_ Hr]. pose proof (Hc _ Hin) as E.
+    cbn [fst snd] in *. rewrite <- E, Nat.min_id, Nat.sub_0_r, (col_chunk_full c m Hr). reflexivity.
+Qed.
+
+Lemma concat_map_concat : forall {X Y} (g : X -> list (list Y)) (l : list X),
+  concat (map (fun x => concat (g x)) l) = concat (concat (map g l)).
+Proof. intros X Y g l. induction l as [|x r IH]; simpl; [reflexivity|]. rewrite concat_app, IH. reflexivity. Qed.
+
+Lemma nth_map_concat : forall {X} (l : list (list (list X))) i,
+  nth i (map (@concat X) l) [] = concat (nth i l []).
+Proof. intros X l i. change (@nil X) with (concat (@nil (list X))) at 1. apply map_nth. Qed.
+
+Section CatCols.
+  Variable mnt_cat : list (mnt payload) -> nat -> option (mnt payload).
+  Variable met_cat : list (met payload) -> nat -> option (met payload).
+  (* The ragged containers' own cat along columns: row r of the result = rows r of the parts appended
+     (C06: mnt_cat_cols / met_cat_cols) *)
+  Hypothesis H_mnt_cat_cols : forall n (ps : list (nat * cellmat payload)), ps <> [] ->
+    Forall (fun p => rect (fst p) (snd p) /\ length (snd p) = n) ps ->
+    mnt_cat (map (fun p => mnt_of_cells (fst p) (snd p)) ps) 1
+    = Some (mnt_of_cells (sum (map fst ps)) (zip_rows n (map snd ps))).
+  Hypothesis H_met_cat_cols : forall n (ps : list (list nat * cellmat payload)), ps <> [] ->
+    Forall (fun p => length (snd p) = n) ps ->
+    met_cat (map (fun p => met_of_cells (fst p) (snd p)) ps) 1
+    = Some (met_of_cells (concat (map fst ps)) (zip_rows n (map snd ps))).
+
+  Lemma mnt_chunks_cat : forall n c (m : cellmat payload) ivs,
+    rect c m -> length m = n -> chain 0 ivs c -> ivs <> [] ->
+    mnt_cat (map (fun ab => mnt_of_cells (Nat.min (snd ab) c - fst ab) (col_chunk (fst ab) (snd ab) m)) ivs) 1
+    = Some (mnt_of_cells c m).
+  Proof.
+    intros n c m ivs Hr Hn Hc Hne.
+    rewrite <- (map_map (fun ab => (Nat.min (snd ab) c - fst ab, col_chunk (fst ab) (snd ab) m))
+                        (fun p => mnt_of_cells (fst p) (snd p))).
+    rewrite (H_mnt_cat_cols n).
+    - rewrite !map_map. cbn [fst snd]. rewrite (chain_sum 0 ivs c c Hc (le_n c)), Nat.sub_0_r.
+      rewrite (zip_chunks c n m ivs Hr Hn Hc). reflexivity.
+    - destruct ivs; [congruence|discriminate].
+    - apply Forall_map. pose proof (chain_bounds 0 ivs c Hc) as Hb. eapply Forall_impl; [|exact Hb]. cbn beta.
+      intros [a b]. cbn [fst snd]. intros [_ [Hab Hbc]]. split; [|rewrite col_chunk_length; exact Hn].
+      rewrite Nat.min_l by exact Hbc. apply (col_chunk_rect c); assumption.
+  Qed.
+
+  Lemma cat_data_cols : forall n v ivs,
+    view_wf n v -> vdict_ok v -> chain 0 ivs (vncols v) -> ivs <> [] ->
+    cat_tensor_data mnt_cat met_cat (map (fun ab => feat_of_view (vcols (fst ab) (snd ab) v)) ivs) 1
+    = Some (feat_of_view v).
+  Proof.
+    intros n v ivs Hw Hd Hc Hne.
+    destruct ivs as [|ab [|ab2 rest]]; [congruence| |].
+    { inversion Hc as [|a b r e Hab Hr]; subst. inversion Hr; subst. cbn [map cat_tensor_data fst snd].
+      rewrite (vcols_full n v Hw Hd). reflexivity. }
+    set (ivs := ab :: ab2 :: rest) in *.
+    assert (Hgen : forall (l : list feat) x x2 r, l = x :: x2 :: r ->
+              cat_tensor_data mnt_cat met_cat l 1 =
+              match x with
+              | FDense _ _ _ => ds <- mapM as_dense l ;; r <- dense_cat ds 1 ;;
+                                Some (FDense (fst (fst r)) (snd (fst r)) (snd r))
+              | FEmb _ => ts <- mapM as_emb l ;; option_map FEmb (met_cat ts 1)
+              | FNested _ => ts <- mapM as_nested l ;; option_map FNested (mnt_cat ts 1)
+              | FDict d0 => ds <- mapM as_dict l ;;
+                  option_map FDict
+                    (mapM (fun kv => ts <- mapM (alookup String.eqb (fst kv)) ds ;;
+                                     option_map (pair (fst kv)) (mnt_cat ts 1)) d0)
+              end) by (intros l x x2 r ->; reflexivity).
+    destruct v as [c k m|c m|ws m|d]; cbn [vcols vncols feat_of_view view_wf vdict_ok] in *.
+    - destruct Hw as [Hn Hw]. pose proof (dense_wf_rect c k m Hw) as Hr.
+      erewrite Hgen by (unfold ivs; cbn [map]; reflexivity). cbv beta iota.
+      rewrite mapM_map.
+      erewrite (mapM_all_some _ (fun ab => (map (@concat payload) (col_chunk (fst ab) (snd ab) m),
+                                            Nat.min (snd ab) c - fst ab, k))) by (intros; reflexivity).
+      cbn [obind].
+      set (L := map (fun ab => (map (@concat payload) (col_chunk (fst ab) (snd ab) m), Nat.min (snd ab) c - fst ab, k)) ivs).
+      assert (EL : exists d0 rest0, L = d0 :: rest0 /\ length (fst (fst d0)) = n).
+      { unfold L, ivs. cbn [map]. eexists. eexists. split; [reflexivity|]. cbn [fst]. rewrite map_length, col_chunk_length. exact Hn. }
+      destruct EL as [d0 [rest0 [EL Hd0]]].
+      assert (Edc : dense_cat L 1 =
+                    Some (map (fun i => concat (map (fun d1 : list (list payload) * nat * nat => nth i (fst (fst d1)) []) L)) (seq 0 n),
+                          sum (map (fun d1 : list (list payload) * nat * nat => snd (fst d1)) L), k)).
+      { unfold dense_cat. rewrite EL. destruct d0 as [[r0 c0] k0]. cbn [fst snd] in Hd0. cbn [Nat.eqb]. rewrite <- EL.
+        assert (Ek0 : k0 = k).
+        { assert (Hin : In (r0, c0, k0) L) by (rewrite EL; left; reflexivity). unfold L in Hin. apply in_map_iff in Hin.
+          destruct Hin as [ab0 [E _]]. injection E as _ _ E. symmetry. exact E. }
+        subst k0.
+        assert (Ef : forallb (fun d1 : list (list payload) * nat * nat =>
+                               (length (fst (fst d1)) =? length r0) && (snd d1 =? k)) L = true).
+        { apply forallb_forall. intros d1 Hin. unfold L in Hin. apply in_map_iff in Hin. destruct Hin as [ab0 [<- _]].
+          cbn [fst snd]. rewrite map_length, col_chunk_length, Hn, Hd0, !Nat.eqb_refl. reflexivity. }
+        rewrite Ef, Hd0. reflexivity. }
+      rewrite Edc. cbn [obind fst snd]. f_equal. f_equal.
+      + (* rows *)
+        etransitivity; [|symmetry; apply (map_nth_seq (map (@concat payload) m) (concat (@nil (list payload))))].
+        rewrite map_length, Hn. apply map_ext_in. intros i Hi. apply in_seq in Hi. unfold L. rewrite map_map. cbn [fst].
+        erewrite map_ext.
+        2:{ intros ab0. rewrite nth_map_concat, nth_col_chunk. reflexivity. }
+        rewrite (concat_map_concat (fun ab0 => tslice (nth i m []) (fst ab0) (snd ab0))).
+        rewrite (chain_tslices (nth i m []) 0 ivs c Hc), (map_nth (@concat payload)). f_equal. apply tslice_full.
+        unfold rect in Hr. rewrite Forall_forall in Hr. apply Hr. apply nth_In. lia.
+      + unfold L. rewrite map_map. cbn [fst snd]. rewrite (chain_sum 0 ivs c c Hc (le_n c)). lia.
+    - destruct Hw as [Hn Hw].
+      erewrite Hgen by (unfold ivs; cbn [map]; reflexivity). cbv beta iota.
+      rewrite mapM_map.
+      erewrite (mapM_all_some _ (fun ab => mnt_of_cells (Nat.min (snd ab) c - fst ab) (col_chunk (fst ab) (snd ab) m)))
+        by (intros; reflexivity).
+      cbn [obind]. rewrite (mnt_chunks_cat n c m ivs Hw Hn Hc) by (unfold ivs; discriminate). reflexivity.
+    - destruct Hw as [Hn Hw]. pose proof (rect_w_rect ws m Hw) as Hr.
+      erewrite Hgen by (unfold ivs; cbn [map]; reflexivity). cbv beta iota.
+      rewrite mapM_map.
+      erewrite (mapM_all_some _ (fun ab => met_of_cells (tslice ws (fst ab) (snd ab)) (col_chunk (fst ab) (snd ab) m)))
+        by (intros; reflexivity).
+      cbn [obind].
+      rewrite <- (map_map (fun ab => (tslice ws (fst ab) (snd ab), col_chunk (fst ab) (snd ab) m))
+                          (fun p => met_of_cells (fst p) (snd p))).
+      rewrite (H_met_cat_cols n).
+      + cbn [option_map]. rewrite !map_map. cbn [fst snd].
+        rewrite (chain_tslices ws 0 ivs (length ws) Hc), tslice_all, (zip_chunks (length ws) n m ivs Hr Hn Hc). reflexivity.
+      + unfold ivs. discriminate.
+      + apply Forall_map. apply Forall_forall. intros ab0 _. cbn [snd]. rewrite col_chunk_length. exact Hn.
+    - destruct Hw as [Hne' Hw]. destruct Hd as [Hnd Hcu].
+      erewrite Hgen by (unfold ivs; cbn [map]; reflexivity). cbv beta iota.
+      rewrite mapM_map.
+      erewrite (mapM_all_some _ (fun ab => map (fun kcm : string * (nat * cellmat payload) =>
+                  (fst kcm, mnt_of_cells (fst (snd kcm)) (snd (snd kcm))))
+                  (map (fun kcm : string * (nat * cellmat payload) =>
+                          (fst kcm, (Nat.min (snd ab) (fst (snd kcm)) - fst ab, col_chunk (fst ab) (snd ab) (snd (snd kcm))))) d)))
+        by (intros; reflexivity).
+      cbn [obind]. rewrite !map_map. cbn [fst snd]. rewrite mapM_map. cbn [fst snd].
+      erewrite (mapM_all_some _ (fun kcm : string * (nat * cellmat payload) =>
+                  (fst kcm, mnt_of_cells (fst (snd kcm)) (snd (snd kcm))))).
+      + cbn [option_map]. reflexivity.
+      + intros [kk [c m]] Hin. cbn [fst snd]. rewrite Forall_forall in Hw, Hcu.
+        destruct (Hw _ Hin) as [Hn Hr]. pose proof (Hcu _ Hin) as Ec. cbn [fst snd] in *.
+        rewrite mapM_map.
+        erewrite (mapM_all_some _ (fun ab => mnt_of_cells (Nat.min (snd ab) c - fst ab) (col_chunk (fst ab) (snd ab) m))).
+        * cbn [obind]. rewrite (mnt_chunks_cat n c m ivs Hr Hn) by (try (rewrite Ec; exact Hc); unfold ivs; discriminate).
+          reflexivity.
+        * intros ab0 _. apply (In_alookup String.eqb str_eqb_spec).
+          -- rewrite !map_map. cbn [fst]. rewrite (map_ext _ fst (fun _ => eq_refl)). exact Hnd.
+          -- rewrite map_map. apply in_map_iff. exists (kk, (c, m)). split; [reflexivity|exact Hin].
+  Qed.
+End CatCols.
+
+(* ---- helpers for the frame-level column theorem ---- *)
+Lemma NoDup_app_inv : forall {X} (a b : list X),
+  NoDup (a ++ b) -> NoDup a /\ NoDup b /\ (forall x, In x a -> In x b -> False).
+Proof.
+  intros X a. induction a as [|x r IH]; intros b H; simpl in *.
+  - repeat split; [constructor|exact H|intros x []].
+  - inversion H as [|? ? Hni Hnd]; subst. destruct (IH b Hnd) as [Ha [Hb Hd]]. repeat split.
+    + constructor; [|exact Ha]. intros Hin. apply Hni. apply in_or_app. left; exact Hin.
+    + exact Hb.
+    + intros z [->|Hz] Hzb; [apply Hni; apply in_or_app; right; exact Hzb|apply (Hd z Hz Hzb)].
+Qed.
+
+Lemma NoDup_app_intro : forall {X} (a b : list X),
+  NoDup a -> NoDup b -> (forall x, In x a -> In x b -> False) -> NoDup (a ++ b).
+Proof.
+  intros X a. induction a as [|x r IH]; intros b Ha Hb Hd; simpl; [exact Hb|].
+  inversion Ha as [|? ? Hni Hnd]; subst. constructor.
+  - intros Hin. apply in_app_or in Hin. destruct Hin as [Hin|Hin]; [contradiction|]. apply (Hd x (or_introl eq_refl) Hin).
+  - apply IH; [exact Hnd|exact Hb|]. intros z Hz Hzb. apply (Hd z (or_intror Hz) Hzb).
+Qed.
+
+Lemma flat_nodup_part : forall {K X} (nm : list (K * list X)) s l, NoDup (flat_map snd nm) -> In (s, l) nm -> NoDup l.
+Proof.
+  intros K X nm s l. induction nm as [|p r IH]; intros H Hin; [contradiction|]. simpl in H.
+  destruct (NoDup_app_inv _ _ H) as [Ha [Hb _]]. destruct Hin as [->|Hin]; [exact Ha|apply IH; assumption].
+Qed.
+
+Lemma flat_nodup_disjoint : forall {X} (nm : list (stype * list X)) s l s' l' x,
+  NoDup (flat_map snd nm) -> In (s, l) nm -> In (s', l') nm -> s <> s' -> In x l -> In x l' -> False.
+Proof.
+  intros X nm s l s' l' x. induction nm as [|p r IH]; intros H H1 H2 Hne Hx Hx'; [contradiction|]. simpl in H.
+  destruct (NoDup_app_inv _ _ H) as [_ [Hb Hd]].
+  destruct H1 as [->|H1], H2 as [E2|H2].
+  - injection E2 as E _. congruence.
+  - apply (Hd x Hx). apply in_flat_map. exists (s', l'). auto.
+  - subst p. apply (Hd x Hx'). apply in_flat_map. exists (s, l). auto.
+  - apply IH; assumption.
+Qed.
+
+Lemma NoDup_flat_sub : forall {X} (g nm : list (stype * list X)),
+  NoDup (map fst g) -> (forall p, In p g -> In p nm) -> NoDup (flat_map snd nm) -> NoDup (flat_map snd g).
+Proof.
+  intros X g nm. induction g as [|[s l] g' IH]; intros Hnd Hsub Hnm; simpl; [constructor|].
+  inversion Hnd as [|? ? Hni Hnd']; subst. apply NoDup_app_intro.
+  - apply (flat_nodup_part nm s l Hnm). apply Hsub. left; reflexivity.
+  - apply IH; [exact Hnd'| |exact Hnm]. intros p Hp. apply Hsub. right; exact Hp.
+  - intros x Hx Hx'. apply in_flat_map in Hx'. destruct Hx' as [[s' l'] [Hin' Hx']]. cbn [snd] in Hx'.
+    apply (flat_nodup_disjoint nm s l s' l' x Hnm); try assumption.
+    + apply Hsub. left; reflexivity.
+    + apply Hsub. right; exact Hin'.
+    + intros ->. apply Hni. apply in_map_iff. exists (s', l'). auto.
+Qed.
+
+Lemma filter_flat_map : forall {X Y} (f : Y -> bool) (g : X -> list Y) (l : list X),
+  filter f (flat_map g l) = flat_map (fun x => filter f (g x)) l.
+Proof. intros X Y f g l. induction l as [|x r IH]; simpl; [reflexivity|]. rewrite filter_app, IH. reflexivity. Qed.
+
+Lemma filter_all : forall {X} (f : X -> bool) (l : list X), (forall x, In x l -> f x = true) -> filter f l = l.
+Proof.
+  intros X f l. induction l as [|a r IH]; intros H; simpl; [reflexivity|].
+  rewrite (H a (or_introl eq_refl)). f_equal. apply IH. intros x Hx. apply H. right; exact Hx.
+Qed.
+
+Lemma filter_none' : forall {X} (f : X -> bool) (l : list X), (forall x, In x l -> f x = false) -> filter f l = [].
+Proof.
+  intros X f l. induction l as [|a r IH]; intros H; simpl; [reflexivity|].
+  rewrite (H a (or_introl eq_refl)). apply IH. intros x Hx. apply H. right; exact Hx.
+Qed.
+
+(* in a flat_map over a dict whose outputs keep the key of their input, the entries of key s come from the entry of s *)
+Lemma filter_flat_key : forall {X Y} (g : stype * X -> list (stype * Y)) (l : list (stype * X)) s x,
+  (forall sc p, In p (g sc) -> fst p = fst sc) -> NoDup (map fst l) -> In (s, x) l ->
+  filter (fun p => stype_eqb s (fst p)) (flat_map g l) = g (s, x).
+Proof.
+  intros X Y g l s x Hg. induction l as [|[s' x'] r IH]; intros Hnd Hin; [contradiction|].
+  inversion Hnd as [|? ? Hni Hnd']; subst. cbn [flat_map]. rewrite filter_app. destruct Hin as [E|Hin].
+  - injection E as -> ->. rewrite filter_all.
+    + rewrite filter_none'; [apply app_nil_r|]. intros p Hp. apply in_flat_map in Hp. destruct Hp as [[s2 x2] [Hin2 Hp]].
+      rewrite (Hg _ _ Hp). cbn [fst]. apply (keqb_neq stype_eqb stype_eqb_spec). intros ->. apply Hni.
+      apply in_map_iff. exists (s2, x2). auto.
+    + intros p Hp. rewrite (Hg _ _ Hp). apply stype_eqb_refl.
+  - rewrite filter_none'.
+    + apply IH; assumption.
+    + intros p Hp. rewrite (Hg _ _ Hp). cbn [fst]. apply (keqb_neq stype_eqb stype_eqb_spec). intros ->. apply Hni.
+      apply in_map_iff. exists (s', x). auto.
+Qed.
+
+Lemma filter_flat_key_absent : forall {X Y} (g : stype * X -> list (stype * Y)) (l : list (stype * X)) s,
+  (forall sc p, In p (g sc) -> fst p = fst sc) -> ~ In s (map fst l) ->
+  filter (fun p => stype_eqb s (fst p)) (flat_map g l) = [].
+Proof.
+  intros X Y g l s Hg Hni. apply filter_none'. intros p Hp. apply in_flat_map in Hp. destruct Hp as [[s2 x2] [Hin2 Hp]].
+  rewrite (Hg _ _ Hp). cbn [fst]. apply (keqb_neq stype_eqb stype_eqb_spec). intros ->. apply Hni.
+  apply in_map_iff. exists (s2, x2). auto.
+Qed.
+
+Lemma has_key_filter : forall {W} (L : list (stype * list W)) s,
+  has_key stype_eqb s L = true <-> filter (fun kv => stype_eqb s (fst kv)) L <> [].
+Proof.
+  intros W L s. unfold has_key. rewrite existsb_exists. split.
+  - intros [p [Hin E]] Hf. assert (Hp : In p (filter (fun kv => stype_eqb s (fst kv)) L)) by (apply filter_In; auto).
+    rewrite Hf in Hp. contradiction.
+  - intros H. destruct (filter (fun kv => stype_eqb s (fst kv)) L) as [|p r] eqn:E; [congruence|].
+    assert (Hp : In p (filter (fun kv => stype_eqb s (fst kv)) L)) by (rewrite E; left; reflexivity).
+    apply filter_In in Hp. exists p. exact Hp.
+Qed.
+
+Lemma flat_map_nil' : forall {X Y} (f : X -> list Y) (l : list X), (forall x, In x l -> f x = []) -> flat_map f l = [].
+Proof.
+  intros X Y f l. induction l as [|a r IH]; intros H; simpl; [reflexivity|].
+  rewrite (H a (or_introl eq_refl)). apply IH. intros x Hx. apply H. right; exact Hx.
+Qed.
+
+Lemma flat_map_single : forall {X} (x : X) jy k,
+  jy < k -> flat_map (fun j => if j =? jy then [x] else []) (seq 0 k) = [x].
+Proof.
+  intros X x jy k H. replace k with (jy + S (k - S jy)) by lia. rewrite seq_app, flat_map_app. cbn [seq flat_map].
+  rewrite Nat.eqb_refl.
+  assert (E1 : flat_map (fun j => if j =? jy then [x] else []) (seq 0 jy) = []).
+  { apply flat_map_nil'. intros j Hj. apply in_seq in Hj. assert (E : (j =? jy) = false) by (apply Nat.eqb_neq; lia). rewrite E. reflexivity. }
+  assert (E2 : flat_map (fun j => if j =? jy then [x] else []) (seq (S (0 + jy)) (k - S jy)) = []).
+  { apply flat_map_nil'. intros j Hj. apply in_seq in Hj. assert (E : (j =? jy) = false) by (apply Nat.eqb_neq; lia). rewrite E. reflexivity. }
+  rewrite E1, E2. reflexivity.
+Qed.
+
+Lemma flat_map_map_compose : forall {X Y Z} (f : Y -> list Z) (g : X -> Y) (l : list X),
+  flat_map f (map g l) = flat_map (fun x => f (g x)) l.
+Proof. intros X Y Z f g l. induction l as [|x r IH]; simpl; [reflexivity|]. rewrite IH. reflexivity. Qed.
+
+Lemma map_flat_map : forall {X Y Z} (f : Y -> Z) (g : X -> list Y) (l : list X),
+  map f (flat_map g l) = flat_map (fun x => map f (g x)) l.
+Proof. intros X Y Z f g l. induction l as [|x r IH]; simpl; [reflexivity|]. rewrite map_app, IH. reflexivity. Qed.
+
+Lemma concat_map_singleton : forall {X Y} (f : X -> Y) (l : list X), concat (map (fun x => [f x]) l) = map f l.
+Proof. intros X Y f l. induction l as [|x r IH]; simpl; [reflexivity|]. rewrite IH. reflexivity. Qed.
+
+Lemma view_wf_vcols : forall n v a b, view_wf n v -> vdict_ok v -> a < b -> b <= vncols v -> view_wf n (vcols a b v).
+Proof.
+  intros n v a b Hw Hd Hab Hb. destruct v as [c k m|c m|ws m|d]; cbn [vcols vncols view_wf vdict_ok] in *.
+  - destruct Hw as [Hn Hw]. split; [rewrite col_chunk_length; exact Hn|]. unfold col_chunk. apply Forall_map.
+    eapply Forall_impl; [|exact Hw]. cbn beta. intros r [Hc Hk]. split.
+    + rewrite Nat.min_l by exact Hb. apply tslice_length. lia.
+    + apply Forall_forall. intros cl Hcl. rewrite Forall_forall in Hk. apply Hk. apply (In_tslice r a b). exact Hcl.
+  - destruct Hw as [Hn Hw]. split; [rewrite col_chunk_length; exact Hn|]. rewrite Nat.min_l by exact Hb.
+    apply (col_chunk_rect c); assumption.
+  - destruct Hw as [Hn Hw]. split; [rewrite col_chunk_length; exact Hn|]. apply col_chunk_rect_w. exact Hw.
+  - destruct Hw as [Hne Hw]. destruct Hd as [_ Hc]. split; [destruct d; [congruence|discriminate]|].
+    apply Forall_map. rewrite Forall_forall in *. intros [kk [c m]] Hin. cbn [fst snd].
+    destruct (Hw _ Hin) as [Hn Hr]. pose proof (Hc _ Hin) as E. cbn [fst snd] in *.
+    split; [rewrite col_chunk_length; exact Hn|]. rewrite Nat.min_l by lia. apply (col_chunk_rect c); [exact Hr|lia].
+Qed.
+
+Lemma stype_in_dec : forall (s : stype) (l : list stype), In s l \/ ~ In s l.
+Proof.
+  intros s l. induction l as [|x r IH]; [right; intros []|].
+  destruct (stype_eqb s x) eqn:E.
+  - apply stype_eqb_spec in E. subst. left. left. reflexivity.
+  - destruct IH as [IH|IH]; [left; right; exact IH|]. right. intros [->|H]; [|contradiction].
+    rewrite stype_eqb_refl in E. discriminate.
+Qed.
+
+Section ColPartition.
+  Variable close : Z -> Z -> bool.
+  Hypothesis close_refl : forall z, close z z = true.
+  Variable mnt_cat : list (mnt payload) -> nat -> option (mnt payload).
+  Variable met_cat : list (met payload) -> nat -> option (met payload).
+  Hypothesis H_mnt_cat_cols : forall n (ps : list (nat * cellmat payload)), ps <> [] ->
+    Forall (fun p => rect (fst p) (snd p) /\ length (snd p) = n) ps ->
+    mnt_cat (map (fun p => mnt_of_cells (fst p) (snd p)) ps) 1
+    = Some (mnt_of_cells (sum (map fst ps)) (zip_rows n (map snd ps))).
+  Hypothesis H_met_cat_cols : forall n (ps : list (list nat * cellmat payload)), ps <> [] ->
+    Forall (fun p => length (snd p) = n) ps ->
+    met_cat (map (fun p => met_of_cells (fst p) (snd p)) ps) 1
+    = Some (met_of_cells (concat (map fst ps)) (zip_rows n (map snd ps))).
+
+  Lemma col_partition_roundtrip_proof : forall n vs nm yy ov k cut jy pov,
+    frame_wf n vs yy ov -> names_ok vs nm -> NoDup (flat_map snd nm) ->
+    jy < k ->
+    (forall s v, In (s, v) vs -> cut 0 s = 0 /\ cut k s = vncols v) ->
+    (forall s j, cut j s <= cut (S j) s) ->
+    (forall j, j < k -> match pov j with
+                        | Some m => m = n
+                        | None => col_part_views (cut j) (cut (S j)) vs <> [] \/ n = 0
+                        end) ->
+    match yy with Some v => Forall (fun p => p <> None) v | None => True end ->
+    exists F',
+      tf_cat mnt_cat met_cat (map (col_part cut vs nm (fun j => if j =? jy then yy else None) pov) (seq 0 k)) 1 = Some F'
+      /\ tf_eq close F' (frame_of vs nm yy ov) = Some true
+      /\ tf_eq close (frame_of vs nm yy ov) F' = Some true.
+  Proof.
+    intros n vs nm yy ov k cut jy pov Hwf Hnames Hndnames Hjy Hcut Hmono Hpov Hnan.
+    pose proof Hnames as [Hndv [Hndn [Hlen [Hsub Hcols]]]]. pose proof Hwf as [Hv [Hy Ho]]. rewrite Forall_forall in Hv.
+    set (py := fun j => if j =? jy then yy else None).
+    set (parts := map (col_part cut vs nm py pov) (seq 0 k)).
+    set (ivs := fun s => cut_ivs (fun j => cut j s) 0 k).
+    assert (Hchain : forall s v, In (s, v) vs -> chain 0 (ivs s) (vncols v) /\ ivs s <> []).
+    { intros s v Hin. destruct (Hcut s v Hin) as [H0 Hk].
+      assert (Hc : chain 0 (ivs s) (vncols v)).
+      { pose proof (chain_of_cuts (fun j => cut j s) k 0 (fun j => Hmono s j)) as Hc. cbn beta in Hc.
+        rewrite H0 in Hc. change (0 + k) with k in Hc. rewrite Hk in Hc. exact Hc. }
+      split; [exact Hc|]. intros E. rewrite E in Hc. inversion Hc as [a Ha|]; subst.
+      destruct (Hcols s v Hin) as [_ [cn [_ [Hl Hne]]]]. destruct cn; [congruence|]. simpl in Hl. lia. }
+    (* ---- names ---- *)
+    assert (Hfn : flat_names parts = flat_map (fun j => col_part_names (cut j) (cut (S j)) nm) (seq 0 k)).
+    { unfold flat_names, parts. rewrite flat_map_map_compose. reflexivity. }
+    assert (Hgkey : forall j (sc : stype * list string) p,
+               In p (if cut j (fst sc) <? cut (S j) (fst sc)
+                     then [(fst sc, tslice (snd sc) (cut j (fst sc)) (cut (S j) (fst sc)))] else []) -> fst p = fst sc).
+    { intros j sc p Hp. destruct (cut j (fst sc) <? cut (S j) (fst sc)); [|contradiction]. destruct Hp as [<-|[]]. reflexivity. }
+    assert (Hfilt_n : forall s cn, In (s, cn) nm ->
+               filter (fun p => stype_eqb s (fst p)) (flat_names parts)
+               = map (fun ab => (s, tslice cn (fst ab) (snd ab))) (ivs s)).
+    { intros s cn Hin. rewrite Hfn, filter_flat_map. unfold ivs, cut_ivs.
+      rewrite <- (flat_map_if_map (fun ab => (s, tslice cn (fst ab) (snd ab))) (fun j => cut j s)).
+      apply flat_map_ext. intros j. unfold col_part_names.
+      rewrite (filter_flat_key _ nm s cn (Hgkey j) Hndn Hin). reflexivity. }
+    assert (Hfilt_n_abs : forall s, ~ In s (map fst nm) -> filter (fun p => stype_eqb s (fst p)) (flat_names parts) = []).
+    { intros s Hni. rewrite Hfn, filter_flat_map. apply flat_map_nil'. intros j _. unfold col_part_names.
+      apply (filter_flat_key_absent _ nm s (Hgkey j) Hni). }
+    assert (Hnm_v : forall s cn, In (s, cn) nm -> exists v, In (s, v) vs /\ length cn = vncols v).
+    { intros s cn Hin. assert (Hs : In s (map fst vs)) by (apply Hsub; apply in_map_iff; exists (s, cn); auto).
+      apply in_map_iff in Hs. destruct Hs as [[s2 v] [E Hinv]]. cbn [fst] in E. subst s2. exists v. split; [exact Hinv|].
+      destruct (Hcols s v Hinv) as [_ [cn' [E [Hl _]]]]. rewrite (In_alookup stype_eqb stype_eqb_spec s cn nm Hndn Hin) in E.
+      injection E as <-. exact Hl. }
+    assert (Hvals_n : forall s cn, In (s, cn) nm -> vals_of stype_eqb s (flat_names parts) = cn).
+    { intros s cn Hin. unfold vals_of. rewrite (Hfilt_n s cn Hin), map_map. cbn [snd].
+      destruct (Hnm_v s cn Hin) as [v [Hinv Hl]]. destruct (Hchain s v Hinv) as [Hc _].
+      rewrite (chain_tslices cn 0 (ivs s) (vncols v) Hc). apply tslice_full. exact Hl. }
+    set (nm' := group_names parts).
+    assert (Hnd_nm' : NoDup (map fst nm')).
+    { unfold nm'. rewrite group_names_flat. apply fold_gstep_nodup. constructor. }
+    assert (Gn1 : forall s l, In (s, l) nm' -> In (s, l) nm).
+    { intros s l Hin. unfold nm' in Hin. rewrite group_names_flat in Hin. apply group_In in Hin. destruct Hin as [-> Hk].
+      apply has_key_filter in Hk.
+      destruct (stype_in_dec s (map fst nm)) as [Hs|Hs].
+      - apply in_map_iff in Hs. destruct Hs as [[s2 cn] [E Hin]]. cbn [fst] in E. subst s2.
+        rewrite (Hvals_n s cn Hin). exact Hin.
+      - exfalso. apply Hk. apply Hfilt_n_abs. exact Hs. }
+    assert (Gn2 : forall s cn, In (s, cn) nm -> In (s, cn) nm').
+    { intros s cn Hin. unfold nm'. rewrite group_names_flat. rewrite <- (Hvals_n s cn Hin) at 1. apply group_has.
+      apply has_key_filter. rewrite (Hfilt_n s cn Hin). destruct (Hnm_v s cn Hin) as [v [Hinv _]].
+      destruct (Hchain s v Hinv) as [_ Hne]. destruct (ivs s); [congruence|discriminate]. }
+    assert (Hlen_nm' : length nm' = length nm).
+    { apply Nat.le_antisymm.
+      - apply NoDup_incl_length; [|intros p Hp; destruct p; apply Gn1; exact Hp].
+        apply (NoDup_map_inv fst). exact Hnd_nm'.
+      - apply NoDup_incl_length; [|intros p Hp; destruct p; apply Gn2; exact Hp].
+        apply (NoDup_map_inv fst). exact Hndn. }
+    assert (Hdup2 : has_dup (flat_map snd nm') = false).
+    { apply has_dup_false. apply (NoDup_flat_sub nm' nm Hnd_nm'); [|exact Hndnames]. intros [s l] Hp. apply Gn1. exact Hp. }
+    assert (Hdup1 : existsb (fun sc : stype * list string => has_dup (snd sc)) nm' = false).
+    { apply not_true_is_false. intros H. apply existsb_exists in H. destruct H as [[s l] [Hin Hd]]. cbn [snd] in Hd.
+      assert (Hn : NoDup l) by (apply (flat_nodup_part nm s l Hndnames); apply Gn1; exact Hin).
+      apply has_dup_false in Hn. congruence. }
+    (* ---- features ---- *)
+    assert (Hff : flat_feats parts =
+                  flat_map (fun j => flat_map (fun sv : stype * fview =>
+                     if cut j (fst sv) <? cut (S j) (fst sv)
+                     then [(fst sv, [feat_of_view (vcols (cut j (fst sv)) (cut (S j) (fst sv)) (snd sv))])] else []) vs) (seq 0 k)).
+    { unfold flat_feats, parts. rewrite flat_map_map_compose. apply flat_map_ext. intros j.
+      unfold col_part, frame_of, col_part_views. cbn [feats]. rewrite !map_flat_map. apply flat_map_ext. intros sv.
+      destruct (cut j (fst sv) <? cut (S j) (fst sv)); reflexivity. }
+    assert (Hgkey_f : forall j (sv : stype * fview) (p : stype * list feat),
+               In p (if cut j (fst sv) <? cut (S j) (fst sv)
+                     then [(fst sv, [feat_of_view (vcols (cut j (fst sv)) (cut (S j) (fst sv)) (snd sv))])] else []) ->
+               fst p = fst sv).
+    { intros j sv p Hp. destruct (cut j (fst sv) <? cut (S j) (fst sv)); [|contradiction]. destruct Hp as [<-|[]]. reflexivity. }
+    assert (Hfilt_f : forall s v, In (s, v) vs ->
+               filter (fun p => stype_eqb s (fst p)) (flat_feats parts)
+               = map (fun ab => (s, [feat_of_view (vcols (fst ab) (snd ab) v)])) (ivs s)).
+    { intros s v Hin. rewrite Hff, filter_flat_map. unfold ivs, cut_ivs.
+      rewrite <- (flat_map_if_map (fun ab => (s, [feat_of_view (vcols (fst ab) (snd ab) v)])) (fun j => cut j s)).
+      apply flat_map_ext. intros j.
+      rewrite (filter_flat_key _ vs s v (Hgkey_f j) Hndv Hin). reflexivity. }
+    assert (Hfilt_f_abs : forall s, ~ In s (map fst vs) -> filter (fun p => stype_eqb s (fst p)) (flat_feats parts) = []).
+    { intros s Hni. rewrite Hff, filter_flat_map. apply flat_map_nil'. intros j _.
+      apply (filter_flat_key_absent _ vs s (Hgkey_f j) Hni). }
+    assert (Hvals_f : forall s v, In (s, v) vs ->
+               vals_of stype_eqb s (flat_feats parts) = map (fun ab => feat_of_view (vcols (fst ab) (snd ab) v)) (ivs s)).
+    { intros s v Hin. unfold vals_of. rewrite (Hfilt_f s v Hin), map_map. cbn [snd]. apply concat_map_singleton. }
+    assert (Gf1 : forall s l, In (s, l) (group_feats parts) ->
+               exists v, In (s, v) vs /\ l = map (fun ab => feat_of_view (vcols (fst ab) (snd ab) v)) (ivs s)).
+    { intros s l Hin. rewrite group_feats_flat in Hin. apply group_In in Hin. destruct Hin as [-> Hk].
+      apply has_key_filter in Hk.
+      assert (Hs : In s (map fst vs)).
+      { destruct (alookup stype_eqb s vs) as [v|] eqn:E.
+        - apply (alookup_In stype_eqb stype_eqb_spec) in E. apply in_map_iff. exists (s, v). auto.
+        - apply (alookup_None stype_eqb stype_eqb_spec) in E. exfalso. apply Hk. apply Hfilt_f_abs. exact E. }
+      apply in_map_iff in Hs. destruct Hs as [[s2 v] [E Hinv]]. cbn [fst] in E. subst s2. exists v. split; [exact Hinv|].
+      apply Hvals_f. exact Hinv. }
+    assert (Gf2 : forall s v, In (s, v) vs -> In s (map fst (group_feats parts))).
+    { intros s v Hin. apply in_map_iff. exists (s, vals_of stype_eqb s (flat_feats parts)). split; [reflexivity|].
+      rewrite group_feats_flat. apply group_has. apply has_key_filter. rewrite (Hfilt_f s v Hin).
+      destruct (Hchain s v Hin) as [_ Hne]. destruct (ivs s); [congruence|discriminate]. }
+    set (h := fun s => match alookup stype_eqb s vs with Some v => feat_of_view v | None => FDense [] 0 0 end).
+    set (fs' := map (fun sl : stype * list feat => (fst sl, h (fst sl))) (group_feats parts)).
+    assert (Hhelper : cat_helper mnt_cat met_cat parts 1 = Some fs').
+    { unfold cat_helper, fs'. apply mapM_all_some. intros [s l] Hin. cbn [fst snd].
+      destruct (Gf1 s l Hin) as [v [Hinv ->]]. destruct (Hchain s v Hinv) as [Hc Hne].
+      rewrite (cat_data_cols mnt_cat met_cat H_mnt_cat_cols H_met_cat_cols n v (ivs s) (Hv (s, v) Hinv)
+                 (proj1 (Hcols s v Hinv)) Hc Hne).
+      cbn [option_map]. unfold h. rewrite (In_alookup stype_eqb stype_eqb_spec s v vs Hndv Hinv). reflexivity. }
+    assert (Hnd' : NoDup (map fst fs')).
+    { unfold fs'. rewrite map_map. cbn [fst]. rewrite (map_ext _ fst (fun _ => eq_refl)).
+      rewrite group_feats_flat. apply fold_gstep_nodup. constructor. }
+    assert (Hchar : forall s x, In (s, x) fs' <-> exists v, In (s, v) vs /\ x = feat_of_view v).
+    { intros s x. unfold fs'. split.
+      - intros Hin. apply in_map_iff in Hin. destruct Hin as [[s2 l] [E Hin]]. cbn [fst] in E. injection E as <- <-.
+        destruct (Gf1 s2 l Hin) as [v [Hinv _]]. exists v. split; [exact Hinv|]. unfold h.
+        rewrite (In_alookup stype_eqb stype_eqb_spec s2 v vs Hndv Hinv). reflexivity.
+      - intros [v [Hinv ->]]. pose proof (Gf2 s v Hinv) as Hs. apply in_map_iff in Hs. destruct Hs as [[s2 l] [E Hin]].
+        cbn [fst] in E. subst s2. apply in_map_iff. exists (s, l). cbn [fst]. split; [|exact Hin].
+        unfold h. rewrite (In_alookup stype_eqb stype_eqb_spec s v vs Hndv Hinv). reflexivity. }
+    (* ---- every part is a frame of n rows ---- *)
+    assert (Hpart_wf : forall j, j < k -> frame_wf n (col_part_views (cut j) (cut (S j)) vs) (py j) (pov j)).
+    { intros j Hj. split; [|split].
+      - apply Forall_forall. intros [s v'] Hin. cbn [snd]. unfold col_part_views in Hin. apply in_flat_map in Hin.
+        destruct Hin as [[s2 v] [Hinv Hin]]. cbn [fst snd] in Hin.
+        destruct (cut j s2 <? cut (S j) s2) eqn:E; [|contradiction]. destruct Hin as [E2|[]]. injection E2 as <- <-.
+        apply Nat.ltb_lt in E. apply view_wf_vcols; [apply (Hv (s2, v)); exact Hinv|apply (Hcols s2 v Hinv)|exact E|].
+        destruct (Hcut s2 v Hinv) as [_ Hk]. rewrite <- Hk.
+        clear -Hmono Hj. induction (k - S j) as [|d IH] eqn:Ed.
+        + replace k with (S j) by lia. apply le_n.
+        + assert (Hle : forall a b, a <= b -> cut a s2 <= cut b s2).
+          { intros a b Hab. induction Hab; [apply le_n|]. eapply Nat.le_trans; [exact IHHab|apply Hmono]. }
+          apply Hle. lia.
+      - unfold py. destruct (j =? jy); [exact Hy|exact I].
+      - exact (Hpov j Hj). }
+    assert (Hrows : mapM tf_num_rows parts = Some (map (fun _ => n) (seq 0 k))).
+    { unfold parts. rewrite mapM_map. apply mapM_all_some. intros j Hj. apply in_seq in Hj.
+      unfold col_part. apply num_rows_frame_of. apply Hpart_wf. lia. }
+    (* ---- unfold torch_frame.cat ---- *)
+    assert (Hex : exists k', k = S k') by (destruct k; [lia|eauto]). destruct Hex as [k' Ek].
+    assert (Eparts : parts = col_part cut vs nm py pov 0 :: map (col_part cut vs nm py pov) (seq 1 k')).
+    { unfold parts. rewrite Ek. reflexivity. }
+    fold py. fold parts. rewrite Eparts.
+    change (tf_cat mnt_cat met_cat (?t :: ?r) 1) with (cat_col mnt_cat met_cat (t :: r)). rewrite <- Eparts.
+    unfold cat_col. fold nm'.
+    assert (Eys : match flat_map (fun t => match y t with Some v => [v] | None => [] end) parts with
+                  | [] => Some None | [v] => Some (Some v) | _ :: _ :: _ => None end = Some yy).
+    { unfold parts. rewrite flat_map_map_compose. unfold col_part, frame_of. cbn [y]. unfold py.
+      destruct yy as [yv|].
+      - erewrite flat_map_ext.
+        2:{ intros j. instantiate (1 := fun j => if j =? jy then [yv] else []). cbn beta. destruct (j =? jy); reflexivity. }
+        rewrite (flat_map_single yv jy k Hjy). reflexivity.
+      - rewrite flat_map_nil'; [reflexivity|]. intros j _. destruct (j =? jy); reflexivity. }
+    rewrite Eys. cbn [obind]. rewrite Hdup1, Hdup2, Hrows. cbn [obind].
+    replace (map (fun _ : nat => n) (seq 0 k)) with (n :: map (fun _ : nat => n) (seq 1 k')) by (rewrite Ek; reflexivity).
+    assert (Efb : forallb (Nat.eqb n) (n :: map (fun _ => n) (seq 1 k')) = true).
+    { apply forallb_forall. intros x [<-|Hx]; [apply Nat.eqb_refl|]. apply in_map_iff in Hx. destruct Hx as [_ [<- _]].
+      apply Nat.eqb_refl. }
+    rewrite Efb. cbn [negb]. rewrite Hhelper. cbn [obind].
+    set (ov' := match fs' with [] => Some n | _ :: _ => None end).
+    set (F' := MkTF fs' nm' yy ov').
+    assert (HnF : tf_num_rows F' = Some n).
+    { unfold tf_num_rows, F', ov'. cbn [num_rows_override feats]. destruct fs' as [|[s x] r] eqn:Efs; [reflexivity|].
+      cbn [snd]. destruct (proj1 (Hchar s x) (or_introl eq_refl)) as [v [Hinv ->]].
+      apply feat_len_view. apply (Hv (s, v)). exact Hinv. }
+    assert (Hval : tf_validate F' = true).
+    { apply (validate_ok n).
+      - rewrite Hlen_nm', Hlen. apply Nat.le_antisymm.
+        + rewrite <- (map_length fst fs'), <- (map_length fst vs). apply NoDup_incl_length; [exact Hnd'|].
+          intros s Hs. apply in_map_iff in Hs. destruct Hs as [[s2 x] [<- Hin]]. destruct (proj1 (Hchar s2 x) Hin) as [v [Hinv _]].
+          apply in_map_iff. exists (s2, v). auto.
+        + rewrite <- (map_length fst fs'), <- (map_length fst vs). apply NoDup_incl_length; [exact Hndv|].
+          intros s Hs. apply in_map_iff in Hs. destruct Hs as [[s2 v] [<- Hin]].
+          apply in_map_iff. exists (s2, feat_of_view v). split; [reflexivity|]. apply Hchar. exists v. auto.
+      - intros s Hs. apply in_map_iff in Hs. destruct Hs as [[s2 x] [<- Hin]]. destruct (proj1 (Hchar s2 x) Hin) as [v [Hinv _]].
+        destruct (Hcols s2 v Hinv) as [_ [cn [E _]]]. apply (alookup_In stype_eqb stype_eqb_spec) in E.
+        apply in_map_iff. exists (s2, cn). split; [reflexivity|]. apply Gn2. exact E.
+      - intros s Hs. apply in_map_iff in Hs. destruct Hs as [[s2 cn] [<- Hin]]. apply Gn1 in Hin.
+        destruct (Hnm_v s2 cn Hin) as [v [Hinv _]].
+        apply in_map_iff. exists (s2, feat_of_view v). split; [reflexivity|]. apply Hchar. exists v. auto.
+      - exact HnF.
+      - intros s x Hin. destruct (proj1 (Hchar s x) Hin) as [v [Hinv ->]].
+        destruct (Hcols s v Hinv) as [Hd [cn [E [Hl Hne']]]]. exists cn. split; [|split; [exact Hne'|]].
+        + apply (In_alookup stype_eqb stype_eqb_spec); [exact Hnd_nm'|]. apply Gn2.
+          apply (alookup_In stype_eqb stype_eqb_spec). exact E.
+        + rewrite Hl. apply feat_shapes_view; [apply (Hv (s, v)); exact Hinv|exact Hd].
+      - exact Hy. }
+    unfold tf_mk. fold ov'. fold F'. rewrite Hval.
+    exists F'. split; [reflexivity|].
+    split; apply tf_eq_iff_proof; apply (tf_equiv_same close close_refl _ _ n);
+      try exact HnF; try (apply num_rows_frame_of; exact Hwf); try reflexivity; try exact Hnan.
+    - cbn [F' names frame_of]. split; [exact Hlen_nm'|]. intros s cn Hin. apply (In_alookup stype_eqb stype_eqb_spec); [exact Hndn|].
+      apply Gn1. exact Hin.
+    - cbn [frame_of feats]. rewrite map_map. cbn [fst]. rewrite (map_ext _ fst (fun _ => eq_refl)). exact Hndv.
+    - intros s x Hin. cbn [F' feats] in Hin. destruct (proj1 (Hchar s x) Hin) as [v [Hinv ->]]. split.
+      + cbn [frame_of feats]. apply in_map_iff. exists (s, v). auto.
+      + apply (feat_eq_view_refl close close_refl n); [apply (Hv (s, v)); exact Hinv|apply (Hcols s v Hinv)].
+    - cbn [F' names frame_of]. split; [symmetry; exact Hlen_nm'|]. intros s cn Hin.
+      apply (In_alookup stype_eqb stype_eqb_spec); [exact Hnd_nm'|]. apply Gn2. exact Hin.
+    - exact Hnd'.
+    - intros s x Hin. cbn [frame_of feats] in Hin. apply in_map_iff in Hin. destruct Hin as [[s2 v] [E Hinv]].
+      injection E as <- <-. split.
+      + cbn [F' feats]. apply Hchar. exists v. auto.
+      + apply (feat_eq_view_refl close close_refl n); [apply (Hv (s2, v)); exact Hinv|apply (Hcols s2 v Hinv)].
+  Qed.
+End ColPartition.
